@@ -1,4 +1,2802 @@
 package main
 
-// genSqlIO: placeholder until the translation of this part of the library is written (an empty generated file).
-func genSqlIO() string { return "" }
+// Translation of internal/io/sql (column.go, coerce.go, reader.go, stmt.go, the struct SQLConfig of types.go) into
+// Gallina (coq/Gen/GenSqlIO.v, tie T1 for the SQL reader and writer, properties C19 / C15).
+//
+// The structs Column (with its anonymous struct field data) and SQLConfig become records, the functions listed in
+// gxSpecs are translated statement by statement into definitions gx_<Receiver>_<name>.
+// coq/Proofs/GenSqlIOProofs.v proves every generated definition equal to the hand-written model of coq/Model/Sql.v
+// (the one the sql engine executes through Corr/IOCorr.v), so that an edit of these Go files changes the generated
+// text and breaks a named theorem T1_sql_<name> of coq/Properties/T1Sql.v, while the theorems of C19 / C15 keep
+// talking about the model.
+//
+// THE SCHEME (anything that does not fit is reported through problem(...); the block then keeps the text of the
+// golden copy, marked FALLBACK, so that the development still builds — the exit status says the tie is broken).
+//
+//	*sql.Rows   THE ABSTRACTION BOUNDARY.  The result set is a value of an arbitrary type R with arbitrary answers
+//	            (section variables): rows_next : R -> bool * R (rows.Next()), rows_columns : R -> list bytes *
+//	            gx_error (rows.Columns()), rows_err : R -> gx_error (rows.Err()) and rows_values : R -> list dval,
+//	            the driver values of the current row.  rows.Scan(dest...) is database/sql's (TRUSTED, written out
+//	            as gx_Rows_Scan): the counts are compared, then the translated Column.Scan of every destination is
+//	            called with its value, in order, up to the first error.  The state of rows is dropped when ReadSQL
+//	            returns (its caller only closes it).
+//	interface{} REFLECTION AS A TAGGED UNION, fixed per place (gxPlaces):
+//	            any     a driver value (the argument of Scan and of the coercion closures): dval of Model/Sql.v,
+//	                    DInt int64 | DFloat float64 (bit pattern) | DBool | DStr string | DBytes []byte | DNull
+//	                    nil | DOther anything else.  switch v := t.(type) is a match on the constructor (the
+//	                    cases bool, string, int64, []uint8 / []byte, float64, nil, default); v, ok := t.(T) is the
+//	                    match with (zero, false) elsewhere; t == nil is gx_any_isnil.
+//	            ref     Column.ptr: nil or the address of one of the slices of the column's OWN field data:
+//	                    gx_ref (generated from the struct).  &c.data.F may only be stored into c.ptr of the same c
+//	                    (checked); reflect.ValueOf(c.ptr).Elem().Interface() is gx_ref_elem (c.data) (c.ptr): the
+//	                    CURRENT value of that slice as a gx_DataSlice (generated: one constructor per slice type),
+//	                    Panic on a nil ref as reflect does.
+//	            dslice  types.DataSlice / the result of Data: gx_DataSlice, nil is gx_DataSlice_nil.
+//	            cols    []interface{} holding *Column only (the destinations of rows.Scan): list gx_Column;
+//	                    column.(*Column) is the identity.
+//	closures    DEFUNCTIONALISED.  Every package function of the shape func F(c *Column) func(t interface{}) error
+//	            whose body is one return of a function literal is a constructor gx_fn_F of gx_CoerceFunc and its
+//	            literal is translated as gx_F (column, t).  A CoerceFunc / closure value is option gx_CoerceFunc
+//	            (None = nil).  fn(col) may only stand in  col.coerce = fn(col)  with the same col (checked): the
+//	            closure stored in a column captures that very column, so c.coerce(t) is gx_apply_CoerceFunc f c t
+//	            (Panic when nil).  Calling a nil fn is Panic.
+//	maps        ASSOCIATION LISTS.  map[string]V is option (list (bytes * V)): None = nil map.  m[k] finds the
+//	            LAST pair for k (gx_map_lookup; the list is the sequence of stores that built the map), m[k] = v
+//	            replaces the first pair for k or appends (gx_map_set, Panic on a nil map), range m runs over the
+//	            keys in list order (Go leaves the order open: the theorems hold for every list).  The values of
+//	            CoerceMap are non-nil package functions (a nil CoerceFunc stored in the map is outside the
+//	            translation as it is outside the model).
+//	pointers    *Column / *bytes.Buffer are the value itself, threaded through: a function answers
+//	            outcome (r1 * .. * rn * out1 * ..) where the outs are its *bytes.Buffer arguments and the *Column
+//	            arguments / receiver it changes (syntactic analysis).  At a call the new values are stored back
+//	            into the places they were taken from.  Sound because the callee has no other access path to the
+//	            pointee; a pointer variable appended to a slice may not be used afterwards (checked: moved).
+//	            *string: &s is Some s, nil is None.
+//	bytes.Buffer  the bytes written so far: NewBuffer(nil) is [], WriteString(s) appends s, WriteRune(r) appends
+//	            utf8_encode r of Model/Sql.v (invalid runes as U+FFFD), String() is the value.
+//	errors      gx_error = gx_nil | gx_err: every non-nil error is the one value gx_err (texts abstracted).
+//	            qerrors.New(..) is gx_err; its arguments only build the message and are NOT translated (accepted
+//	            shapes: literals, variables, err.Error(), reflect.ValueOf/TypeOf(x).Kind(); that these cannot
+//	            panic on the paths they stand on — err != nil, t != nil — is not checked).
+//	numbers     int, int64, rune -> Z, exact (int(x) on an int64 is the identity: 64-bit platform; overflow of
+//	            counters is outside the translation as it is outside the model); float64 -> N (the bit pattern);
+//	            math.NaN() -> gx_NaN; float.Fixed -> fixed, strconv.ParseFloat(s, 64) -> parse_float (section
+//	            variables; the value beside a non-nil error is 0); reflect.Kind -> gx_Kind (Invalid is its zero
+//	            value); fmt.Sprintf with %d verbs only -> the literal pieces and gx_itoa of the arguments.
+//	strings     string / []byte -> bytes; a literal -> (bs len 0xHEX); == is bytes_eqb.  []T -> list; nil is [];
+//	            x == nil on a slice is emptiness (exact here: such slices only ever grow by append from nil);
+//	            append(x, y) -> x ++ [y]; len -> Z.of_nat (length x); x[i] -> gx_list_index (Panic outside).
+//	records     struct -> Record gx_<T> with one projection gx_<T>_<field> and one setter gx_<T>_set_<field> per
+//	            field; the anonymous struct type of Column.data is the record gx_Columndata.
+//	fuel        a function that contains a for loop with a condition (or calls such a function) takes
+//	            (fuel : nat) first: O => Panic | S fuel' => body; inside, every such loop is entered with the
+//	            budget fuel' and every fuelled call gets fuel'.  Range loops are structural and take no fuel.
+//	control     if / switch: the rest of the block is continued inside every branch that falls through.
+//	            switch tag { case a: .. default: .. } is the if-chain in source order.
+//	            for init; cond; post / for cond: a Fixpoint gx_f_loopN over its own counter k (O => Panic):
+//	              S k' => if cond then body; post; loop k' .. else exit.          continue = post; loop; break = exit
+//	            for i, x := range X (X a slice, or the keys of a map): a Fixpoint over the list (X evaluated once):
+//	              [] => exit | x :: l' => body; loop l' (i + 1) ..
+//	            A loop without return inside answers the outer variables it assigns.  With a return inside it
+//	            answers gx_flow: gx_fall vars (left normally) | gx_ret r (the function returned r); when its body
+//	            continues the labelled loop directly around it: gx_flowc with the third case gx_ccont vars.
+//	rejected    goto, break with label, fallthrough, defer, go, shadowing, closures elsewhere, method values,
+//	            struct copies, everything else.
+
+import (
+	"flag"
+	"fmt"
+	"go/ast"
+	"go/token"
+	"math/big"
+	"os"
+	"path/filepath"
+	"strconv"
+	"strings"
+)
+
+const gxPkg = "internal/io/sql"
+
+// in dependency order (a callee before its callers)
+var gxSpecs = []string{"Column.Null", "Column.Int", "Column.Float", "Column.String", "Column.Bool",
+	"Int64ToBool", "StringToFloat", "Column.Scan", "Column.Data", "ReadSQL", "escape", "Insert"}
+
+// the structs that become records, in dependency order
+var gxStructs = []string{"Column", "SQLConfig"}
+
+// the finer types of interface{} places ("Struct.field", "function.variable", "function.resultN")
+var gxPlaces = map[string]string{
+	"Column.ptr":          "ref",
+	"Column.Scan.t":       "any",
+	"Int64ToBool.t":       "any",
+	"StringToFloat.t":     "any",
+	"Column.Data.result0": "dslice",
+	"ReadSQL.columns":     "cols",
+}
+
+const gxPreamble1 = `(* GENERATED by tools/qf2coq (sqlio.go) from internal/io/sql (column.go, coerce.go, reader.go, stmt.go, types.go)
+   of tobgu/qframe — do not edit.  One Record per struct, one definition gx_<Receiver>_<function> per translated
+   Go function, one Fixpoint .._loopN per loop; the scheme is described at the top of tools/qf2coq/sqlio.go.
+   R / rows_next / rows_columns / rows_values / rows_err : the *sql.Rows (arbitrary state, arbitrary answers);
+   fixed / parse_float : float.Fixed and strconv.ParseFloat (arbitrary).  A driver value (interface{}) is dval of
+   Model/Sql.v; Column.ptr is a gx_ref into the column's own data, Data() answers a gx_DataSlice; closures are
+   the constructors of gx_CoerceFunc; maps are option (association list); errors are gx_nil | gx_err; int, int64
+   and rune are Z, float64 is its bit pattern in N, string and []byte are bytes.  *Column and *bytes.Buffer are
+   the value, threaded through (answered after the Go results when the function changes it).  A function with
+   a conditional loop (or calling one) takes fuel first: O => Panic, S fuel' => the body. *)
+From QF Require Import Base.Prelude Model.Sql.
+Local Open Scope Z_scope.
+
+(* error values: nil, anything else *)
+Inductive gx_error := gx_nil | gx_err.
+Definition gx_error_isnil (e : gx_error) : bool := match e with gx_nil => true | gx_err => false end.
+
+(* reflect.Kind, the values this package mentions; Invalid is the zero value *)
+Inductive gx_Kind := gx_Invalid | gx_Bool | gx_Int | gx_Float64 | gx_String.
+Definition gx_Kind_eqb (a b : gx_Kind) : bool :=
+  match a, b with
+  | gx_Invalid, gx_Invalid | gx_Bool, gx_Bool | gx_Int, gx_Int | gx_Float64, gx_Float64 | gx_String, gx_String => true
+  | _, _ => false
+  end.
+
+(* control flow out of a loop that contains a return (and a continue of the labelled loop around it) *)
+Inductive gx_flow (Rt V : Type) := gx_fall (v : V) | gx_ret (r : Rt).
+Arguments gx_fall {Rt V} v.
+Arguments gx_ret {Rt V} r.
+Inductive gx_flowc (Rt V : Type) := gx_cfall (v : V) | gx_cret (r : Rt) | gx_ccont (v : V).
+Arguments gx_cfall {Rt V} v.
+Arguments gx_cret {Rt V} r.
+Arguments gx_ccont {Rt V} v.
+
+(* t == nil on a driver value; x == nil on a slice; f == nil on a function value / m == nil on a map *)
+Definition gx_any_isnil (t : dval) : bool := match t with DNull => true | _ => false end.
+Definition gx_isnil {T : Type} (s : list T) : bool := match s with [] => true | _ :: _ => false end.
+Definition gx_opt_isnil {T : Type} (o : option T) : bool := match o with None => true | Some _ => false end.
+(* x[i] *)
+Definition gx_list_index {T : Type} (s : list T) (i : Z) : outcome T :=
+  if i <? 0 then Panic else idx s (Z.to_nat i).
+(* math.NaN() *)
+Definition gx_NaN : N := 0x7FF8000000000001%N.
+(* fmt.Sprintf("%d", z) *)
+Definition gx_itoa (z : Z) : bytes :=
+  if z <? 0 then 45%N :: itoa (Z.to_N (- z)) else itoa (Z.to_N z).
+(* maps as association lists: m[k] (the last pair for k), m[k] = v, the keys in list order *)
+Fixpoint gx_assoc_lookup {V : Type} (l : list (bytes * V)) (k : bytes) : option V :=
+  match l with
+  | [] => None
+  | (k', v) :: l' =>
+      match gx_assoc_lookup l' k with
+      | Some v' => Some v'
+      | None => if bytes_eqb k' k then Some v else None
+      end
+  end.
+Definition gx_map_lookup {V : Type} (m : option (list (bytes * V))) (k : bytes) : option V :=
+  match m with Some l => gx_assoc_lookup l k | None => None end.
+Definition gx_map_set {V : Type} (m : option (list (bytes * V))) (k : bytes) (v : V) : outcome (option (list (bytes * V))) :=
+  match m with Some l => Ok (Some (map_set l k v)) | None => Panic end.
+Definition gx_map_keys {V : Type} (m : option (list (bytes * V))) : list bytes :=
+  match m with Some l => map fst l | None => [] end.
+(* v, ok := t.(T) *)
+Definition gx_assert_int64 (t : dval) : Z * bool := match t with DInt z => (z, true) | _ => (0, false) end.
+Definition gx_assert_float64 (t : dval) : N * bool := match t with DFloat b => (b, true) | _ => (0%N, false) end.
+Definition gx_assert_bool (t : dval) : bool * bool := match t with DBool b => (b, true) | _ => (false, false) end.
+Definition gx_assert_string (t : dval) : bytes * bool := match t with DStr s => (s, true) | _ => ([], false) end.
+Definition gx_assert_bytes (t : dval) : bytes * bool := match t with DBytes s => (s, true) | _ => ([], false) end.
+(* fn(col) on a CoerceFunc value: the closure it makes (Panic on nil) *)
+Definition gx_make_closure {F : Type} (f : option F) : outcome (option F) :=
+  match f with Some g => Ok (Some g) | None => Panic end.
+
+`
+
+const gxPreamble2 = `
+Section GenSqlIO.
+Context {R : Type}.
+Variable rows_next : R -> bool * R.
+Variable rows_columns : R -> list bytes * gx_error.
+Variable rows_values : R -> list dval.
+Variable rows_err : R -> gx_error.
+Variable fixed : N -> Z -> N.
+Variable parse_float : bytes -> option N.
+
+(* strconv.ParseFloat(s, 64) *)
+Definition gx_ParseFloat (s : bytes) : N * gx_error :=
+  match parse_float s with Some f => (f, gx_nil) | None => (0%N, gx_err) end.
+
+`
+
+// database/sql's Rows.Scan, written out after Column.Scan (trusted)
+const gxRowsScan = `(* database/sql Rows.Scan(dest...) (trusted): the counts are compared, then every destination scans its value, in
+   order, up to the first error *)
+Fixpoint gx_scan_dests (fuel' : nat) (dests : list gx_Column) (vals : list dval) : outcome (gx_error * list gx_Column) :=
+  match dests, vals with
+  | d :: ds, v :: vs =>
+      do (e, d') <- gx_Column_Scan fuel' d v;
+      if gx_error_isnil e then
+        do (e2, ds') <- gx_scan_dests fuel' ds vs;
+        Ok (e2, d' :: ds')
+      else Ok (gx_err, d' :: ds)
+  | _, _ => Ok (gx_nil, dests)
+  end.
+Definition gx_Rows_Scan (fuel' : nat) (r : R) (dests : list gx_Column) : outcome (gx_error * list gx_Column) :=
+  if Nat.eqb (length dests) (length (rows_values r)) then gx_scan_dests fuel' dests (rows_values r)
+  else Ok (gx_err, dests).
+`
+
+// ------------------------------------------------------------------ types
+
+type gxT struct {
+	k     string // int i64 rune bool str buf float any err kind ref dslice optstr list struct cfn cfnv clo map rows const strconst nil bad
+	sname string
+	ptr   bool
+	elem  *gxT
+	val   *big.Rat
+	sval  string
+}
+
+var (
+	gxInt    = &gxT{k: "int"}
+	gxI64    = &gxT{k: "i64"}
+	gxRune   = &gxT{k: "rune"}
+	gxBool   = &gxT{k: "bool"}
+	gxStr    = &gxT{k: "str"}
+	gxBuf    = &gxT{k: "buf", ptr: true}
+	gxFloat  = &gxT{k: "float"}
+	gxAny    = &gxT{k: "any"}
+	gxErr    = &gxT{k: "err"}
+	gxKind   = &gxT{k: "kind"}
+	gxRef    = &gxT{k: "ref"}
+	gxDSlice = &gxT{k: "dslice"}
+	gxOptStr = &gxT{k: "optstr"}
+	gxCfn    = &gxT{k: "cfn"}
+	gxCfnV   = &gxT{k: "cfnv"}
+	gxClo    = &gxT{k: "clo"}
+	gxRows   = &gxT{k: "rows", ptr: true}
+	gxNil    = &gxT{k: "nil"}
+	gxBad    = &gxT{k: "bad"}
+)
+
+func gxList(e *gxT) *gxT { return &gxT{k: "list", elem: e} }
+func gxMap(e *gxT) *gxT  { return &gxT{k: "map", elem: e} }
+
+func (t *gxT) same(u *gxT) bool {
+	if t.k != u.k || t.sname != u.sname {
+		return false
+	}
+	if t.elem != nil || u.elem != nil {
+		return t.elem != nil && u.elem != nil && t.elem.same(u.elem)
+	}
+	return true
+}
+
+func (t *gxT) name() string {
+	switch t.k {
+	case "struct":
+		return t.sname
+	case "list":
+		return "[]" + t.elem.name()
+	case "map":
+		return "map of " + t.elem.name()
+	}
+	return t.k
+}
+
+func (t *gxT) isNum() bool { return t.k == "int" || t.k == "i64" || t.k == "rune" }
+
+func (t *gxT) coq() string {
+	switch t.k {
+	case "int", "i64", "rune":
+		return "Z"
+	case "bool":
+		return "bool"
+	case "str", "buf":
+		return "bytes"
+	case "float":
+		return "N"
+	case "any":
+		return "dval"
+	case "err":
+		return "gx_error"
+	case "kind":
+		return "gx_Kind"
+	case "ref":
+		return "gx_ref"
+	case "dslice":
+		return "gx_DataSlice"
+	case "optstr":
+		return "(option bytes)"
+	case "list":
+		return "(list " + t.elem.coq() + ")"
+	case "struct":
+		return "gx_" + t.sname
+	case "cfn", "clo":
+		return "(option gx_CoerceFunc)"
+	case "cfnv":
+		return "gx_CoerceFunc"
+	case "map":
+		return "(option (list (bytes * " + t.elem.coq() + ")))"
+	case "rows":
+		return "R"
+	}
+	return "BAD"
+}
+
+func (t *gxT) zero() (string, bool) {
+	switch t.k {
+	case "int", "i64", "rune":
+		return "0", true
+	case "bool":
+		return "false", true
+	case "str", "buf":
+		return "(@nil N)", true
+	case "float":
+		return "0%N", true
+	case "any":
+		return "DNull", true
+	case "err":
+		return "gx_nil", true
+	case "kind":
+		return "gx_Invalid", true
+	case "ref":
+		return "gx_ref_nil", true
+	case "dslice":
+		return "gx_DataSlice_nil", true
+	case "optstr", "cfn", "clo", "map":
+		return "None", true
+	case "list":
+		return "(@nil " + t.elem.coq() + ")", true
+	case "struct":
+		s := gxStructTab[t.sname]
+		if s == nil || !s.ok {
+			return "BAD", false
+		}
+		var args []string
+		for _, f := range s.fields {
+			z, ok := f.t.zero()
+			if !ok {
+				return "BAD", false
+			}
+			args = append(args, z)
+		}
+		return "(gx_mk_" + s.name + " " + strings.Join(args, " ") + ")", true
+	}
+	return "BAD", false
+}
+
+type gxField struct {
+	name string
+	t    *gxT
+}
+
+type gxStruct struct {
+	name   string
+	goName string
+	fields []gxField
+	nested []string // names of the nested anonymous structs (declared with it)
+	ok     bool
+}
+
+var gxStructTab map[string]*gxStruct
+var gxStructOrder []string // all records, nested first
+var gxMakers []string      // the functions of the CoerceFunc shape, in source order of gxSpecs then others
+
+// gxResolve maps a Go type expression to a translation type; place is "Struct.field" / "func.var" / "func.resultN".
+func gxResolve(p *pkgInfo, e ast.Expr, place string) *gxT {
+	if st, ok := e.(*ast.StructType); ok {
+		// an anonymous struct type: the record <Struct><field>
+		name := strings.ReplaceAll(place, ".", "")
+		if gxStructTab[name] == nil {
+			gxLoadStruct(p, name, "struct type of "+place, st)
+		}
+		return &gxT{k: "struct", sname: name}
+	}
+	src := ggSrc(p.fset, e)
+	switch src {
+	case "int":
+		return gxInt
+	case "int64":
+		return gxI64
+	case "rune":
+		return gxRune
+	case "bool":
+		return gxBool
+	case "string":
+		return gxStr
+	case "float64":
+		return gxFloat
+	case "error":
+		return gxErr
+	case "reflect.Kind":
+		return gxKind
+	case "[]int":
+		return gxList(gxInt)
+	case "[]float64":
+		return gxList(gxFloat)
+	case "[]bool":
+		return gxList(gxBool)
+	case "[]*string":
+		return gxList(gxOptStr)
+	case "[]string":
+		return gxList(gxStr)
+	case "*string":
+		return gxOptStr
+	case "func(t interface{}) error":
+		return gxClo
+	case "CoerceFunc":
+		return gxCfn
+	case "map[string]CoerceFunc":
+		return gxMap(gxCfnV)
+	case "map[string]types.DataSlice":
+		return gxMap(gxDSlice)
+	case "types.DataSlice":
+		return gxDSlice
+	case "*sql.Rows":
+		return gxRows
+	case "*bytes.Buffer":
+		return gxBuf
+	case "interface{}", "[]interface{}", "any", "[]any":
+		switch gxPlaces[place] {
+		case "ref":
+			if src == "interface{}" || src == "any" {
+				return gxRef
+			}
+		case "any":
+			if src == "interface{}" || src == "any" {
+				return gxAny
+			}
+		case "dslice":
+			if src == "interface{}" || src == "any" {
+				return gxDSlice
+			}
+		case "cols":
+			if src == "[]interface{}" || src == "[]any" {
+				return gxList(&gxT{k: "struct", sname: "Column", ptr: true})
+			}
+		}
+		return gxBad
+	}
+	ptr := strings.HasPrefix(src, "*")
+	base := strings.TrimPrefix(src, "*")
+	for _, s := range gxStructs {
+		if s == base {
+			return &gxT{k: "struct", sname: s, ptr: ptr}
+		}
+	}
+	return gxBad
+}
+
+func gxLoadStruct(p *pkgInfo, name, what string, st *ast.StructType) {
+	s := &gxStruct{name: name, goName: what, ok: true}
+	gxStructTab[name] = s
+	for _, fl := range st.Fields.List {
+		if len(fl.Names) == 0 {
+			problem("internal/io/sql translation: %s has an embedded field", what)
+			s.ok = false
+		}
+		for _, n := range fl.Names {
+			t := gxResolve(p, fl.Type, name+"."+n.Name)
+			if t.k == "bad" || t.k == "rows" || t.k == "buf" {
+				problem("internal/io/sql translation: field %s.%s has a type that is not understood: %s", name, n.Name, ggSrc(p.fset, fl.Type))
+				s.ok = false
+				continue
+			}
+			if t.k == "struct" {
+				in := gxStructTab[t.sname]
+				if in == nil {
+					problem("internal/io/sql translation: field %s.%s uses struct %s before it is declared", name, n.Name, t.sname)
+					s.ok = false
+					continue
+				}
+				if t.ptr {
+					problem("internal/io/sql translation: field %s.%s is a pointer to a struct", name, n.Name)
+					s.ok = false
+				}
+				if !in.ok {
+					s.ok = false
+				}
+				if _, isAnon := fl.Type.(*ast.StructType); isAnon {
+					s.nested = append(s.nested, t.sname)
+				}
+			}
+			s.fields = append(s.fields, gxField{n.Name, t})
+		}
+	}
+	gxStructOrder = append(gxStructOrder, name)
+}
+
+func gxLoadStructs(p *pkgInfo) {
+	gxStructTab = map[string]*gxStruct{}
+	gxStructOrder = nil
+	decls := map[string]*ast.StructType{}
+	for _, f := range p.files {
+		for _, d := range f.Decls {
+			gd, ok := d.(*ast.GenDecl)
+			if !ok || gd.Tok != token.TYPE {
+				continue
+			}
+			for _, s := range gd.Specs {
+				ts := s.(*ast.TypeSpec)
+				if st, ok := ts.Type.(*ast.StructType); ok {
+					decls[ts.Name.Name] = st
+				}
+			}
+		}
+	}
+	for _, name := range gxStructs {
+		st, ok := decls[name]
+		if !ok {
+			problem("internal/io/sql translation: struct %s not found", name)
+			gxStructTab[name] = &gxStruct{name: name}
+			continue
+		}
+		gxLoadStruct(p, name, "struct "+name, st)
+	}
+}
+
+func (s *gxStruct) field(name string) (*gxT, bool) {
+	for _, f := range s.fields {
+		if f.name == name {
+			return f.t, true
+		}
+	}
+	return nil, false
+}
+
+// record text of one struct
+func (s *gxStruct) record() string {
+	var b strings.Builder
+	fmt.Fprintf(&b, "Record gx_%s := gx_mk_%s {\n", s.name, s.name)
+	for i, f := range s.fields {
+		sep := ";"
+		if i == len(s.fields)-1 {
+			sep = " }."
+		}
+		fmt.Fprintf(&b, "  gx_%s_%s : %s%s\n", s.name, f.name, f.t.coq(), sep)
+	}
+	for i, f := range s.fields {
+		var args []string
+		for j, g := range s.fields {
+			if i == j {
+				args = append(args, "v")
+			} else {
+				args = append(args, "(gx_"+s.name+"_"+g.name+" r)")
+			}
+		}
+		fmt.Fprintf(&b, "Definition gx_%s_set_%s (r : gx_%s) (v : %s) : gx_%s :=\n  gx_mk_%s %s.\n", s.name, f.name, s.name, f.t.coq(), s.name, s.name, strings.Join(args, " "))
+	}
+	return b.String()
+}
+
+// the slices a Column.ptr can point to: (field of Column holding the nested struct, field of the nested struct, type)
+type gxRefTarget struct {
+	outer, inner string
+	t            *gxT
+}
+
+func gxRefTargets() []gxRefTarget {
+	var out []gxRefTarget
+	s := gxStructTab["Column"]
+	if s == nil {
+		return nil
+	}
+	for _, f := range s.fields {
+		if f.t.k != "struct" {
+			continue
+		}
+		in := gxStructTab[f.t.sname]
+		if in == nil {
+			continue
+		}
+		for _, g := range in.fields {
+			if g.t.k == "list" {
+				out = append(out, gxRefTarget{f.name, g.name, g.t})
+			}
+		}
+	}
+	return out
+}
+
+// gx_ref, gx_DataSlice and gx_ref_elem, generated from the nested struct(s) of Column
+func gxRefText() string {
+	var b strings.Builder
+	ts := gxRefTargets()
+	b.WriteString("(* Column.ptr: nil or the address of one of the slices of the column's own data *)\nInductive gx_ref := gx_ref_nil")
+	for _, t := range ts {
+		fmt.Fprintf(&b, " | gx_ref_%s_%s", t.outer, t.inner)
+	}
+	b.WriteString(".\nDefinition gx_ref_isnil (r : gx_ref) : bool := match r with gx_ref_nil => true | _ => false end.\n")
+	b.WriteString("(* types.DataSlice: the nil interface or one of these slices *)\nInductive gx_DataSlice := gx_DataSlice_nil")
+	for _, t := range ts {
+		fmt.Fprintf(&b, " | gx_DataSlice_%s (l : %s)", t.inner, t.t.coq())
+	}
+	b.WriteString(".\n")
+	return b.String()
+}
+
+func gxRefElemText() string {
+	var b strings.Builder
+	ts := gxRefTargets()
+	b.WriteString("(* reflect.ValueOf(c.ptr).Elem().Interface() *)\nDefinition gx_ref_elem (c : gx_Column) (r : gx_ref) : outcome gx_DataSlice :=\n  match r with\n  | gx_ref_nil => Panic\n")
+	for _, t := range ts {
+		in := gxStructTab["Column"]
+		ft, _ := in.field(t.outer)
+		fmt.Fprintf(&b, "  | gx_ref_%s_%s => Ok (gx_DataSlice_%s (gx_%s_%s (gx_Column_%s c)))\n", t.outer, t.inner, t.inner, ft.sname, t.inner, t.outer)
+	}
+	b.WriteString("  end.\n")
+	return b.String()
+}
+
+// ------------------------------------------------------------------ translation context
+
+type gxVar struct {
+	name  string
+	t     *gxT
+	moved bool // a pointer that was appended to a slice: no longer usable
+	local bool // a range variable: may not be assigned
+}
+
+type gxFunc struct {
+	goName    string
+	coq       string
+	fd        *ast.FuncDecl
+	body      *ast.BlockStmt
+	maker     bool
+	recv      string
+	recvT     *gxT
+	params    []gxVar
+	results   []*gxT
+	outs      []gxVar
+	needsFuel bool
+	done      bool
+	ok        bool
+	text      string
+}
+
+var gxFuncs map[string]*gxFunc
+
+type gxCtx struct {
+	vars       []gxVar
+	brk        func() string
+	cont       func() string
+	loopLabel  string        // label of the innermost enclosing loop ("" = none)
+	outerLabel string        // label of the loop around it
+	jump       func() string // continue outerLabel
+	retv       func(tuple string) string
+}
+
+type gxTr struct {
+	p     *pkgInfo
+	f     *gxFunc
+	loops []string
+	bad   bool
+	ntmp  int
+	nrec  int
+}
+
+func (t *gxTr) fail(n ast.Node, format string, a ...interface{}) {
+	pos := ""
+	if n != nil {
+		pos = t.p.fset.Position(n.Pos()).String() + ": "
+	}
+	problem("internal/io/sql translation, function %s: %s%s", t.f.goName, pos, fmt.Sprintf(format, a...))
+	t.bad = true
+}
+
+func (t *gxTr) src(n ast.Node) string { return ggSrc(t.p.fset, n) }
+
+func (t *gxTr) tmp() string {
+	t.ntmp++
+	return fmt.Sprintf("t%d", t.ntmp)
+}
+
+func (c gxCtx) lookup(name string) (gxVar, bool) {
+	for i := len(c.vars) - 1; i >= 0; i-- {
+		if c.vars[i].name == name {
+			return c.vars[i], true
+		}
+	}
+	return gxVar{}, false
+}
+
+func gxRootOf(e ast.Expr) string {
+	switch x := e.(type) {
+	case *ast.Ident:
+		return x.Name
+	case *ast.SelectorExpr:
+		return gxRootOf(x.X)
+	case *ast.IndexExpr:
+		return gxRootOf(x.X)
+	case *ast.ParenExpr:
+		return gxRootOf(x.X)
+	case *ast.StarExpr:
+		return gxRootOf(x.X)
+	case *ast.TypeAssertExpr:
+		return gxRootOf(x.X)
+	case *ast.UnaryExpr:
+		if x.Op == token.AND {
+			return gxRootOf(x.X)
+		}
+	}
+	return ""
+}
+
+// ------------------------------------------------------------------ expressions
+
+func gxRatText(v *big.Rat) string {
+	if v.Sign() < 0 {
+		return "(" + v.Num().String() + ")"
+	}
+	return v.Num().String()
+}
+
+// coerce an untyped constant / nil / string literal to the wanted type
+func (t *gxTr) coerce(n ast.Node, text string, ty *gxT, want *gxT) (string, *gxT) {
+	switch ty.k {
+	case "nil":
+		switch want.k {
+		case "err", "ref", "dslice", "optstr", "cfn", "clo", "map", "list", "any":
+			z, _ := want.zero()
+			return z, want
+		}
+		t.fail(n, "nil in a context of type %s", want.name())
+		return text, want
+	case "const":
+		if !ty.val.IsInt() {
+			t.fail(n, "constant %s is not an integer", ty.val.String())
+			return "0", want
+		}
+		if want.isNum() {
+			return gxRatText(ty.val), want
+		}
+		t.fail(n, "constant %s in a context of type %s", ty.val.String(), want.name())
+		return "0", want
+	}
+	return text, ty
+}
+
+func (t *gxTr) selConst(e ast.Expr, c gxCtx) (string, *gxT, bool) {
+	sn := ggSelName(e)
+	if sn == "" {
+		return "", nil, false
+	}
+	pk := strings.SplitN(sn, ".", 2)[0]
+	if _, shadowed := c.lookup(pk); shadowed {
+		return "", nil, false
+	}
+	switch sn {
+	case "reflect.Invalid":
+		return "gx_Invalid", gxKind, true
+	case "reflect.Bool":
+		return "gx_Bool", gxKind, true
+	case "reflect.Int":
+		return "gx_Int", gxKind, true
+	case "reflect.Float64":
+		return "gx_Float64", gxKind, true
+	case "reflect.String":
+		return "gx_String", gxKind, true
+	}
+	return "", nil, false
+}
+
+// is e the chain reflect.ValueOf(X).Elem().Interface() ?
+func gxElemChain(e ast.Expr) (ast.Expr, bool) {
+	c1, ok := e.(*ast.CallExpr)
+	if !ok || len(c1.Args) != 0 {
+		return nil, false
+	}
+	s1, ok := c1.Fun.(*ast.SelectorExpr)
+	if !ok || s1.Sel.Name != "Interface" {
+		return nil, false
+	}
+	c2, ok := s1.X.(*ast.CallExpr)
+	if !ok || len(c2.Args) != 0 {
+		return nil, false
+	}
+	s2, ok := c2.Fun.(*ast.SelectorExpr)
+	if !ok || s2.Sel.Name != "Elem" {
+		return nil, false
+	}
+	c3, ok := s2.X.(*ast.CallExpr)
+	if !ok || len(c3.Args) != 1 || ggSelName(c3.Fun) != "reflect.ValueOf" {
+		return nil, false
+	}
+	return c3.Args[0], true
+}
+
+// the arguments of qerrors.New only build a message
+func (t *gxTr) messageArg(e ast.Expr, c gxCtx) bool {
+	switch x := e.(type) {
+	case *ast.BasicLit:
+		return true
+	case *ast.Ident:
+		_, ok := c.lookup(x.Name)
+		return ok
+	case *ast.SelectorExpr:
+		var pre []string
+		_, ty := t.expr(e, c, &pre)
+		return len(pre) == 0 && ty.k != "bad"
+	case *ast.CallExpr:
+		if se, ok := x.Fun.(*ast.SelectorExpr); ok && len(x.Args) == 0 {
+			if se.Sel.Name == "Error" {
+				if id, ok := se.X.(*ast.Ident); ok {
+					if v, ok := c.lookup(id.Name); ok && v.t.k == "err" {
+						return true
+					}
+				}
+			}
+			if se.Sel.Name == "Kind" {
+				if in, ok := se.X.(*ast.CallExpr); ok && len(in.Args) == 1 {
+					fn := ggSelName(in.Fun)
+					if fn == "reflect.ValueOf" || fn == "reflect.TypeOf" {
+						if id, ok := in.Args[0].(*ast.Ident); ok {
+							_, ok := c.lookup(id.Name)
+							return ok
+						}
+					}
+				}
+			}
+		}
+	}
+	return false
+}
+
+// expr translates an expression; operations that can panic are bound in *pre.
+func (t *gxTr) expr(e ast.Expr, c gxCtx, pre *[]string) (string, *gxT) {
+	switch x := e.(type) {
+	case *ast.ParenExpr:
+		return t.expr(x.X, c, pre)
+	case *ast.BasicLit:
+		switch x.Kind {
+		case token.INT, token.CHAR:
+			if v, ok := evalConst(t.p, x); ok {
+				return "", &gxT{k: "const", val: v}
+			}
+		case token.STRING:
+			if s, err := strconv.Unquote(x.Value); err == nil {
+				return coqBytes(s), gxStr
+			}
+		}
+	case *ast.Ident:
+		if v, ok := c.lookup(x.Name); ok {
+			if v.moved {
+				t.fail(e, "%s is used after it was appended to a slice (the pointer is shared from there on)", x.Name)
+			}
+			return "v_" + v.name, v.t
+		}
+		switch x.Name {
+		case "true", "false":
+			return x.Name, gxBool
+		case "nil":
+			return "", gxNil
+		}
+		if ce, ok := t.p.consts[x.Name]; ok {
+			if v, ok := evalConst(t.p, ce); ok {
+				return "", &gxT{k: "const", val: v}
+			}
+		}
+		t.fail(e, "unknown identifier %s", x.Name)
+		return "0", gxBad
+	case *ast.SelectorExpr:
+		if txt, ty, ok := t.selConst(e, c); ok {
+			return txt, ty
+		}
+		a, ta := t.expr(x.X, c, pre)
+		if ta.k == "struct" {
+			s := gxStructTab[ta.sname]
+			if ft, ok := s.field(x.Sel.Name); ok {
+				return "(gx_" + s.name + "_" + x.Sel.Name + " " + a + ")", ft
+			}
+			t.fail(e, "%s has no field %s", s.name, x.Sel.Name)
+			return "0", gxBad
+		}
+	case *ast.TypeAssertExpr:
+		if x.Type != nil {
+			a, ta := t.expr(x.X, c, pre)
+			if ta.k == "struct" && ta.ptr && t.src(x.Type) == "*"+ta.sname {
+				return a, ta
+			}
+		}
+	case *ast.IndexExpr:
+		a, ta := t.expr(x.X, c, pre)
+		i, ti := t.expr(x.Index, c, pre)
+		if ta.k == "list" {
+			i, ti = t.coerce(x.Index, i, ti, gxInt)
+			if ti.k != "int" {
+				t.fail(e, "index of type %s", ti.name())
+				return "0", gxBad
+			}
+			tmp := t.tmp()
+			*pre = append(*pre, "do "+tmp+" <- gx_list_index "+a+" "+i+";\n")
+			return tmp, ta.elem
+		}
+		t.fail(e, "indexing a %s here", ta.name())
+		return "0", gxBad
+	case *ast.UnaryExpr:
+		switch x.Op {
+		case token.NOT:
+			a, ta := t.expr(x.X, c, pre)
+			if ta.k == "bool" {
+				return "(negb " + a + ")", gxBool
+			}
+		case token.AND:
+			if cl, ok := x.X.(*ast.CompositeLit); ok {
+				a, ta := t.composite(cl, c, pre)
+				return a, &gxT{k: ta.k, sname: ta.sname, ptr: true}
+			}
+			a, ta := t.expr(x.X, c, pre)
+			if ta.k == "str" {
+				if _, isVar := x.X.(*ast.Ident); isVar {
+					return "(Some " + a + ")", gxOptStr
+				}
+			}
+			// &c.F.G : a reference into the column's own data (the caller checks where it is stored)
+			if s2, ok := x.X.(*ast.SelectorExpr); ok {
+				if s1, ok := s2.X.(*ast.SelectorExpr); ok {
+					if id, ok := s1.X.(*ast.Ident); ok {
+						if v, ok := c.lookup(id.Name); ok && v.t.k == "struct" && v.t.sname == "Column" {
+							for _, rt := range gxRefTargets() {
+								if rt.outer == s1.Sel.Name && rt.inner == s2.Sel.Name {
+									return "gx_ref_" + rt.outer + "_" + rt.inner, &gxT{k: "ref", sname: "", sval: id.Name}
+								}
+							}
+						}
+					}
+				}
+			}
+		}
+	case *ast.BinaryExpr:
+		return t.binary(x, c, pre)
+	case *ast.CompositeLit:
+		return t.composite(x, c, pre)
+	case *ast.CallExpr:
+		return t.call(x, c, pre)
+	}
+	t.fail(e, "expression not understood: %s", t.src(e))
+	return "0", gxBad
+}
+
+func (t *gxTr) composite(cl *ast.CompositeLit, c gxCtx, pre *[]string) (string, *gxT) {
+	if _, isMap := cl.Type.(*ast.MapType); isMap {
+		mt := gxResolve(t.p, cl.Type, "")
+		if mt.k == "map" && len(cl.Elts) == 0 {
+			return "(Some (@nil (bytes * " + mt.elem.coq() + ")))", mt
+		}
+		t.fail(cl, "only an empty map literal is understood")
+		return "None", gxBad
+	}
+	id, ok := cl.Type.(*ast.Ident)
+	if !ok || gxStructTab[id.Name] == nil || !gxStructTab[id.Name].ok {
+		t.fail(cl, "composite literal of a type that is not understood: %s", t.src(cl.Type))
+		return "0", gxBad
+	}
+	s := gxStructTab[id.Name]
+	vals := map[string]string{}
+	for _, el := range cl.Elts {
+		kv, ok := el.(*ast.KeyValueExpr)
+		if !ok {
+			t.fail(el, "%s literal without field names", s.name)
+			continue
+		}
+		name := kv.Key.(*ast.Ident).Name
+		ft, ok := s.field(name)
+		if !ok {
+			t.fail(el, "%s has no field %s", s.name, name)
+			continue
+		}
+		a, ta := t.expr(kv.Value, c, pre)
+		a, ta = t.coerce(kv.Value, a, ta, ft)
+		if !ta.same(ft) {
+			t.fail(el, "field %s.%s (a %s) initialised with a %s", s.name, name, ft.name(), ta.name())
+		}
+		vals[name] = a
+	}
+	var args []string
+	for _, f := range s.fields {
+		if v, ok := vals[f.name]; ok {
+			args = append(args, v)
+			continue
+		}
+		z, ok := f.t.zero()
+		if !ok {
+			t.fail(cl, "field %s.%s is left at its zero value, which has no translation", s.name, f.name)
+		}
+		args = append(args, z)
+	}
+	return "(gx_mk_" + s.name + " " + strings.Join(args, " ") + ")", &gxT{k: "struct", sname: s.name}
+}
+
+func (t *gxTr) binary(x *ast.BinaryExpr, c gxCtx, pre *[]string) (string, *gxT) {
+	if x.Op == token.LAND || x.Op == token.LOR {
+		a, ta := t.expr(x.X, c, pre)
+		var preB []string
+		b, tb := t.expr(x.Y, c, &preB)
+		if ta.k != "bool" || tb.k != "bool" || len(preB) != 0 {
+			t.fail(x, "%s on operands that are not conditions (or whose right operand can panic)", x.Op)
+			return "false", gxBool
+		}
+		if x.Op == token.LAND {
+			return "(if " + a + " then " + b + " else false)", gxBool
+		}
+		return "(if " + a + " then true else " + b + ")", gxBool
+	}
+	a, ta := t.expr(x.X, c, pre)
+	b, tb := t.expr(x.Y, c, pre)
+	if ta.k == "const" && tb.k == "const" {
+		var v *big.Rat
+		switch x.Op {
+		case token.ADD:
+			v = new(big.Rat).Add(ta.val, tb.val)
+		case token.SUB:
+			v = new(big.Rat).Sub(ta.val, tb.val)
+		case token.MUL:
+			v = new(big.Rat).Mul(ta.val, tb.val)
+		}
+		if v != nil {
+			return "", &gxT{k: "const", val: v}
+		}
+		t.fail(x, "constant expression not understood: %s", t.src(x))
+		return "0", gxBad
+	}
+	if ta.k == "const" || ta.k == "nil" {
+		a, ta = t.coerce(x.X, a, ta, tb)
+	} else if tb.k == "const" || tb.k == "nil" {
+		b, tb = t.coerce(x.Y, b, tb, ta)
+	}
+	neg := func(s string) string {
+		if x.Op == token.NEQ {
+			return "(negb " + s + ")"
+		}
+		return s
+	}
+	isEq := x.Op == token.EQL || x.Op == token.NEQ
+	_, nilY := x.Y.(*ast.Ident)
+	nilY = nilY && t.src(x.Y) == "nil"
+	if isEq && nilY && ta.same(tb) {
+		switch ta.k {
+		case "err":
+			return neg("(gx_error_isnil " + a + ")"), gxBool
+		case "ref":
+			return neg("(gx_ref_isnil " + a + ")"), gxBool
+		case "any":
+			return neg("(gx_any_isnil " + a + ")"), gxBool
+		case "list":
+			return neg("(gx_isnil " + a + ")"), gxBool
+		case "cfn", "clo", "map", "optstr":
+			return neg("(gx_opt_isnil " + a + ")"), gxBool
+		}
+	}
+	if ta.isNum() && ta.same(tb) {
+		switch x.Op {
+		case token.ADD:
+			if ta.k == "int" {
+				return "(" + a + " + " + b + ")", ta
+			}
+		case token.SUB:
+			if ta.k == "int" {
+				return "(" + a + " - " + b + ")", ta
+			}
+		case token.LSS:
+			return "(" + a + " <? " + b + ")", gxBool
+		case token.LEQ:
+			return "(" + a + " <=? " + b + ")", gxBool
+		case token.GTR:
+			return "(" + b + " <? " + a + ")", gxBool
+		case token.GEQ:
+			return "(" + b + " <=? " + a + ")", gxBool
+		case token.EQL, token.NEQ:
+			return neg("(" + a + " =? " + b + ")"), gxBool
+		}
+	}
+	if isEq && ta.same(tb) {
+		switch ta.k {
+		case "str":
+			return neg("(bytes_eqb " + a + " " + b + ")"), gxBool
+		case "kind":
+			return neg("(gx_Kind_eqb " + a + " " + b + ")"), gxBool
+		case "bool":
+			return neg("(Bool.eqb " + a + " " + b + ")"), gxBool
+		}
+	}
+	if x.Op == token.ADD && ta.k == "str" && tb.k == "str" {
+		return "(" + a + " ++ " + b + ")", gxStr
+	}
+	t.fail(x, "operator %s on %s and %s is not understood", x.Op, ta.name(), tb.name())
+	return "0", gxBad
+}
+
+// fmt.Sprintf(format, ints...) with %d verbs only
+func (t *gxTr) sprintf(x *ast.CallExpr, c gxCtx, pre *[]string) (string, *gxT) {
+	if len(x.Args) < 1 {
+		t.fail(x, "fmt.Sprintf without format")
+		return "[]", gxStr
+	}
+	lit, ok := x.Args[0].(*ast.BasicLit)
+	if !ok || lit.Kind != token.STRING {
+		t.fail(x, "fmt.Sprintf with a format that is not a literal")
+		return "[]", gxStr
+	}
+	f, err := strconv.Unquote(lit.Value)
+	if err != nil {
+		t.fail(x, "format literal not understood")
+		return "[]", gxStr
+	}
+	var parts []string
+	arg := 1
+	cur := ""
+	for i := 0; i < len(f); i++ {
+		if f[i] != '%' {
+			cur += string(f[i])
+			continue
+		}
+		if i+1 < len(f) && f[i+1] == '%' {
+			cur += "%"
+			i++
+			continue
+		}
+		if i+1 < len(f) && f[i+1] == 'd' && arg < len(x.Args) {
+			a, ta := t.expr(x.Args[arg], c, pre)
+			a, ta = t.coerce(x.Args[arg], a, ta, gxInt)
+			if !ta.isNum() {
+				t.fail(x.Args[arg], "%%d applied to a %s", ta.name())
+			}
+			if cur != "" {
+				parts = append(parts, coqBytes(cur))
+				cur = ""
+			}
+			parts = append(parts, "gx_itoa "+a)
+			arg++
+			i++
+			continue
+		}
+		t.fail(x, "format verb not understood in %s", lit.Value)
+		return "[]", gxStr
+	}
+	if cur != "" {
+		parts = append(parts, coqBytes(cur))
+	}
+	if arg != len(x.Args) {
+		t.fail(x, "fmt.Sprintf: %d arguments for %d verbs", len(x.Args)-1, arg-1)
+	}
+	if len(parts) == 0 {
+		return "(@nil N)", gxStr
+	}
+	return "(" + strings.Join(parts, " ++ ") + ")", gxStr
+}
+
+// call: calls that are plain expressions; calls that change state are statements (callStmt)
+func (t *gxTr) call(x *ast.CallExpr, c gxCtx, pre *[]string) (string, *gxT) {
+	if arg, ok := gxElemChain(x); ok {
+		a, ta := t.expr(arg, c, pre)
+		if ta.k == "ref" {
+			// the ref is a field of a column: the slice is read in that column
+			if se, ok := arg.(*ast.SelectorExpr); ok {
+				o, to := t.expr(se.X, c, pre)
+				if to.k == "struct" && to.sname == "Column" {
+					tmp := t.tmp()
+					*pre = append(*pre, "do "+tmp+" <- gx_ref_elem "+o+" "+a+";\n")
+					return tmp, gxDSlice
+				}
+			}
+		}
+		t.fail(x, "reflect.ValueOf(..).Elem().Interface() on something that is not the ptr field of a column")
+		return "gx_DataSlice_nil", gxDSlice
+	}
+	if id, ok := x.Fun.(*ast.Ident); ok {
+		if v, isVar := c.lookup(id.Name); isVar {
+			if v.t.k == "cfn" && len(x.Args) == 1 {
+				// fn(col): the caller checks that it is stored into col.coerce
+				if aid, ok := x.Args[0].(*ast.Ident); ok {
+					if av, ok := c.lookup(aid.Name); ok && av.t.k == "struct" && av.t.sname == "Column" && av.t.ptr {
+						tmp := t.tmp()
+						*pre = append(*pre, "do "+tmp+" <- gx_make_closure v_"+v.name+";\n")
+						return tmp, &gxT{k: "clo", sval: aid.Name}
+					}
+				}
+			}
+			t.fail(x, "call of the variable %s is not understood", id.Name)
+			return "0", gxBad
+		}
+		switch id.Name {
+		case "len":
+			if len(x.Args) == 1 {
+				a, ta := t.expr(x.Args[0], c, pre)
+				if ta.k == "list" || ta.k == "str" {
+					return "(Z.of_nat (length " + a + "))", gxInt
+				}
+			}
+		case "append":
+			if len(x.Args) == 2 && x.Ellipsis == token.NoPos {
+				a, ta := t.expr(x.Args[0], c, pre)
+				b, tb := t.expr(x.Args[1], c, pre)
+				if ta.k == "list" {
+					b, tb = t.coerce(x.Args[1], b, tb, ta.elem)
+					if tb.same(ta.elem) {
+						return "(" + a + " ++ [" + b + "])", ta
+					}
+				}
+			}
+		case "int", "int64":
+			if len(x.Args) == 1 {
+				a, ta := t.expr(x.Args[0], c, pre)
+				want := gxInt
+				if id.Name == "int64" {
+					want = gxI64
+				}
+				a, ta = t.coerce(x.Args[0], a, ta, want)
+				if ta.k == "int" || ta.k == "i64" {
+					return a, want
+				}
+			}
+		case "string":
+			if len(x.Args) == 1 {
+				a, ta := t.expr(x.Args[0], c, pre)
+				if ta.k == "str" {
+					return a, gxStr
+				}
+			}
+		}
+	}
+	switch ggSelName(x.Fun) {
+	case "math.NaN":
+		if _, sh := c.lookup("math"); !sh && len(x.Args) == 0 {
+			return "gx_NaN", gxFloat
+		}
+	case "float.Fixed":
+		if _, sh := c.lookup("float"); !sh && len(x.Args) == 2 {
+			a, ta := t.expr(x.Args[0], c, pre)
+			b, tb := t.expr(x.Args[1], c, pre)
+			b, tb = t.coerce(x.Args[1], b, tb, gxInt)
+			if ta.k == "float" && tb.k == "int" {
+				return "(fixed " + a + " " + b + ")", gxFloat
+			}
+		}
+	case "fmt.Sprintf":
+		if _, sh := c.lookup("fmt"); !sh {
+			return t.sprintf(x, c, pre)
+		}
+	case "qerrors.New":
+		if _, sh := c.lookup("qerrors"); !sh {
+			for _, a := range x.Args {
+				if !t.messageArg(a, c) {
+					t.fail(a, "argument of qerrors.New of a shape that is not understood: %s", t.src(a))
+				}
+			}
+			return "gx_err", gxErr
+		}
+	case "bytes.NewBuffer":
+		if _, sh := c.lookup("bytes"); !sh && len(x.Args) == 1 && t.src(x.Args[0]) == "nil" {
+			return "(@nil N)", gxBuf
+		}
+	}
+	if se, ok := x.Fun.(*ast.SelectorExpr); ok && se.Sel.Name == "String" && len(x.Args) == 0 {
+		var p2 []string
+		a, ta := t.expr(se.X, c, &p2)
+		if ta.k == "buf" && len(p2) == 0 {
+			return a, gxStr
+		}
+	}
+	t.fail(x, "call not understood (a call that changes state may only stand as a statement, a whole right-hand side, a whole condition or the only returned value): %s", t.src(x))
+	return "0", gxBad
+}
+
+// ------------------------------------------------------------------ statements
+
+func gxTupleOrUnit(parts []string) string {
+	if len(parts) == 0 {
+		return "tt"
+	}
+	return ggTuple(parts)
+}
+
+func gxTypeTupleOrUnit(parts []string) string {
+	if len(parts) == 0 {
+		return "unit"
+	}
+	return ggTypeTuple(parts)
+}
+
+func gxVarNames(vs []gxVar) []string {
+	var out []string
+	for _, v := range vs {
+		out = append(out, "v_"+v.name)
+	}
+	return out
+}
+
+func gxVarTypes(vs []gxVar) []string {
+	var out []string
+	for _, v := range vs {
+		out = append(out, v.t.coq())
+	}
+	return out
+}
+
+func (t *gxTr) noAlias(n ast.Node, ty *gxT) {
+	if ty.sval != "" && (ty.k == "ref" || ty.k == "clo") {
+		t.fail(n, "a reference into / a closure over the column %s may only be stored into that column's own field", ty.sval)
+	}
+}
+
+func (t *gxTr) declare(n ast.Node, c *gxCtx, name string, ty *gxT) {
+	if _, dup := c.lookup(name); dup {
+		t.fail(n, "%s shadows / redeclares a variable", name)
+	}
+	if _, isFn := gxFuncs[name]; isFn {
+		t.fail(n, "%s shadows a function", name)
+	}
+	switch name {
+	case "reflect", "math", "float", "fmt", "qerrors", "bytes", "strconv", "len", "append", "int", "int64", "string", "nil", "true", "false":
+		t.fail(n, "%s shadows a name of the vocabulary", name)
+	}
+	t.noAlias(n, ty)
+	if ty.k == "const" || ty.k == "nil" || ty.k == "bad" {
+		t.fail(n, "variable %s of a type that is not understood", name)
+		ty = gxInt
+	}
+	cp := *ty
+	vars := append([]gxVar{}, c.vars...)
+	c.vars = append(vars, gxVar{name: name, t: &cp})
+}
+
+// store: the statement(s) that give the place lhs the value val.
+func (t *gxTr) store(lhs ast.Expr, val string, tv *gxT, c *gxCtx, pre *[]string) string {
+	switch x := lhs.(type) {
+	case *ast.ParenExpr:
+		return t.store(x.X, val, tv, c, pre)
+	case *ast.StarExpr:
+		return t.store(x.X, val, tv, c, pre)
+	case *ast.Ident:
+		if x.Name == "_" {
+			return ""
+		}
+		v, ok := c.lookup(x.Name)
+		if !ok {
+			t.fail(lhs, "unknown variable %s", x.Name)
+			return ""
+		}
+		if v.local {
+			t.fail(lhs, "assignment to the range variable %s", x.Name)
+		}
+		if v.moved {
+			t.fail(lhs, "%s is changed after it was appended to a slice", x.Name)
+		}
+		if !tv.same(v.t) {
+			t.fail(lhs, "assignment to %s: a %s where a %s is expected", x.Name, tv.name(), v.t.name())
+		}
+		t.noAlias(lhs, tv)
+		return "let v_" + x.Name + " := " + val + " in\n"
+	case *ast.SelectorExpr:
+		a, ta := t.expr(x.X, *c, pre)
+		if ta.k != "struct" {
+			t.fail(lhs, "assignment to a field of a %s", ta.name())
+			return ""
+		}
+		s := gxStructTab[ta.sname]
+		ft, ok := s.field(x.Sel.Name)
+		if !ok {
+			t.fail(lhs, "%s has no field %s", s.name, x.Sel.Name)
+			return ""
+		}
+		if !tv.same(ft) {
+			t.fail(lhs, "assignment to .%s: a %s where a %s is expected", x.Sel.Name, tv.name(), ft.name())
+		}
+		if tv.sval != "" && (tv.k == "ref" || tv.k == "clo") {
+			if id, isId := x.X.(*ast.Ident); !isId || id.Name != tv.sval {
+				t.fail(lhs, "a reference into / a closure over the column %s is stored outside that column", tv.sval)
+			}
+		}
+		plain := *ta
+		return t.store(x.X, "(gx_"+s.name+"_set_"+x.Sel.Name+" "+a+" "+val+")", &plain, c, pre)
+	case *ast.IndexExpr:
+		a, ta := t.expr(x.X, *c, pre)
+		k, tk := t.expr(x.Index, *c, pre)
+		if ta.k != "map" || tk.k != "str" || !tv.same(ta.elem) {
+			t.fail(lhs, "index assignment not understood")
+			return ""
+		}
+		t.noAlias(lhs, tv)
+		tmp := t.tmp()
+		return "do " + tmp + " <- gx_map_set " + a + " " + k + " " + val + ";\n" + t.store(x.X, tmp, ta, c, pre)
+	}
+	t.fail(lhs, "assignment to %s", t.src(lhs))
+	return ""
+}
+
+// callStmt: a call that changes state (a translated function, a closure, a method of rows / a buffer,
+// strconv.ParseFloat) with the stores of its outs.  Answers the text (ending in a newline), the temporaries
+// holding the Go results and their types.
+func (t *gxTr) callStmt(ce *ast.CallExpr, c *gxCtx) (string, []string, []*gxT, bool) {
+	var pre []string
+	type back struct {
+		lval ast.Expr
+		ty   *gxT
+		tmp  string
+	}
+	var backs []back
+	var head string
+	var resT []*gxT
+	monadic := true
+	fuelArg := func(g *gxFunc) string {
+		if g.needsFuel {
+			return " fuel'"
+		}
+		return ""
+	}
+	args := func(g *gxFunc, parts []string) []string {
+		if len(ce.Args) != len(g.params) {
+			t.fail(ce, "%s takes %d arguments", g.goName, len(g.params))
+			return parts
+		}
+		for i, a := range ce.Args {
+			want := g.params[i].t
+			isOut := false
+			for _, o := range g.outs {
+				if o.name == g.params[i].name {
+					isOut = true
+				}
+			}
+			lv := a
+			if u, ok := a.(*ast.UnaryExpr); ok && u.Op == token.AND && want.k == "struct" {
+				lv = u.X
+			}
+			txt, ty := t.expr(lv, *c, &pre)
+			txt, ty = t.coerce(a, txt, ty, want)
+			if !ty.same(want) {
+				t.fail(a, "argument of type %s where %s expects %s", ty.name(), g.goName, want.name())
+			}
+			t.noAlias(a, ty)
+			parts = append(parts, txt)
+			if isOut {
+				if gxRootOf(lv) == "" {
+					t.fail(a, "a pointer argument that is not a place")
+				}
+				backs = append(backs, back{lval: lv, ty: want})
+			}
+		}
+		return parts
+	}
+	switch fn := ce.Fun.(type) {
+	case *ast.Ident:
+		if _, shadowed := c.lookup(fn.Name); shadowed {
+			return "", nil, nil, false
+		}
+		g, ok := gxFuncs[fn.Name]
+		if !ok || g.recv != "" || g.maker {
+			return "", nil, nil, false
+		}
+		if g == t.f {
+			t.fail(ce, "recursion")
+		} else if !g.done {
+			t.fail(ce, "%s is called before it is translated (order of gxSpecs)", g.goName)
+		}
+		head = strings.Join(args(g, []string{g.coq + fuelArg(g)}), " ")
+		resT = g.results
+	case *ast.SelectorExpr:
+		if ggSelName(fn) == "strconv.ParseFloat" {
+			if _, sh := c.lookup("strconv"); sh {
+				return "", nil, nil, false
+			}
+			if len(ce.Args) != 2 || t.src(ce.Args[1]) != "64" {
+				t.fail(ce, "strconv.ParseFloat(s, 64) is expected")
+				return "Panic\n", nil, nil, true
+			}
+			a, ta := t.expr(ce.Args[0], *c, &pre)
+			if ta.k != "str" {
+				t.fail(ce, "strconv.ParseFloat of a %s", ta.name())
+			}
+			head, resT, monadic = "gx_ParseFloat "+a, []*gxT{gxFloat, gxErr}, false
+			break
+		}
+		r := gxRootOf(fn.X)
+		if r == "" {
+			return "", nil, nil, false
+		}
+		if _, known := c.lookup(r); !known {
+			return "", nil, nil, false
+		}
+		var p0 []string
+		_, tr := t.expr(fn.X, *c, &p0)
+		switch tr.k {
+		case "rows":
+			rx, _ := t.expr(fn.X, *c, &pre)
+			switch {
+			case fn.Sel.Name == "Next" && len(ce.Args) == 0:
+				head, resT, monadic = "rows_next "+rx, []*gxT{gxBool}, false
+				backs = append(backs, back{lval: fn.X, ty: gxRows})
+			case fn.Sel.Name == "Columns" && len(ce.Args) == 0:
+				head, resT, monadic = "rows_columns "+rx, []*gxT{gxList(gxStr), gxErr}, false
+			case fn.Sel.Name == "Err" && len(ce.Args) == 0:
+				head, resT, monadic = "rows_err "+rx, []*gxT{gxErr}, false
+			case fn.Sel.Name == "Scan" && len(ce.Args) == 1 && ce.Ellipsis != token.NoPos:
+				a, ta := t.expr(ce.Args[0], *c, &pre)
+				if ta.k != "list" || ta.elem.k != "struct" || ta.elem.sname != "Column" || !ta.elem.ptr {
+					t.fail(ce, "rows.Scan on destinations that are not columns")
+				}
+				g := gxFuncs["Column.Scan"]
+				if g == nil || !g.done {
+					t.fail(ce, "rows.Scan before Column.Scan is translated")
+					return "Panic\n", nil, nil, true
+				}
+				head, resT = "gx_Rows_Scan"+fuelArg(g)+" "+rx+" "+a, []*gxT{gxErr}
+				backs = append(backs, back{lval: ce.Args[0], ty: ta})
+			default:
+				t.fail(ce, "method %s of *sql.Rows is not understood", fn.Sel.Name)
+				return "Panic\n", nil, nil, true
+			}
+		case "buf":
+			bx, _ := t.expr(fn.X, *c, &pre)
+			if len(ce.Args) != 1 {
+				return "", nil, nil, false
+			}
+			a, ta := t.expr(ce.Args[0], *c, &pre)
+			switch {
+			case fn.Sel.Name == "WriteString" && ta.k == "str":
+				var p2 []string
+				return strings.Join(pre, "") + t.store(fn.X, "("+bx+" ++ "+a+")", gxBuf, c, &p2), nil, nil, true
+			case fn.Sel.Name == "WriteRune" && ta.k == "rune":
+				var p2 []string
+				return strings.Join(pre, "") + t.store(fn.X, "("+bx+" ++ utf8_encode "+a+")", gxBuf, c, &p2), nil, nil, true
+			}
+			t.fail(ce, "method %s of *bytes.Buffer is not understood here", fn.Sel.Name)
+			return "Panic\n", nil, nil, true
+		case "struct":
+			g, ok := gxFuncs[tr.sname+"."+fn.Sel.Name]
+			if !ok {
+				// X.coerce(t): the closure stored in the column X, which captured X itself
+				ft, isField := gxStructTab[tr.sname].field(fn.Sel.Name)
+				if !isField || ft.k != "clo" {
+					return "", nil, nil, false
+				}
+				if tr.sname != "Column" || !tr.ptr || len(ce.Args) != 1 {
+					t.fail(ce, "call of a closure that is not the coerce field of a column")
+					return "Panic\n", nil, nil, true
+				}
+				ox, _ := t.expr(fn.X, *c, &pre)
+				a, ta := t.expr(ce.Args[0], *c, &pre)
+				if ta.k != "any" {
+					t.fail(ce, "closure called with a %s", ta.name())
+				}
+				cl, _ := t.expr(fn, *c, &pre)
+				fa := ""
+				if gxApplyFuel {
+					fa = " fuel'"
+				}
+				head = "match " + cl + " with Some f => gx_apply_CoerceFunc" + fa + " f " + ox + " " + a + " | None => Panic end"
+				resT = []*gxT{gxErr}
+				backs = append(backs, back{lval: fn.X, ty: tr})
+				break
+			}
+			if g == t.f {
+				t.fail(ce, "recursion")
+			} else if !g.done {
+				t.fail(ce, "%s is called before it is translated (order of gxSpecs)", g.goName)
+			}
+			rx, _ := t.expr(fn.X, *c, &pre)
+			parts := args(g, []string{g.coq + fuelArg(g), rx})
+			for _, o := range g.outs {
+				if o.name == g.recv {
+					backs = append(backs, back{lval: fn.X, ty: g.recvT})
+				}
+			}
+			head = strings.Join(parts, " ")
+			resT = g.results
+		default:
+			return "", nil, nil, false
+		}
+	default:
+		return "", nil, nil, false
+	}
+	var pat, res []string
+	for range resT {
+		tmp := t.tmp()
+		pat = append(pat, tmp)
+		res = append(res, tmp)
+	}
+	for i := range backs {
+		backs[i].tmp = t.tmp()
+		pat = append(pat, backs[i].tmp)
+	}
+	text := strings.Join(pre, "")
+	if monadic {
+		text += "do " + gxTupleOrUnit(pat) + " <- " + head + ";\n"
+	} else if len(pat) == 1 {
+		text += "let " + pat[0] + " := " + head + " in\n"
+	} else {
+		text += "let '" + gxTupleOrUnit(pat) + " := " + head + " in\n"
+	}
+	for i := len(backs) - 1; i >= 0; i-- {
+		bk := backs[i]
+		var p2 []string
+		text += t.store(bk.lval, bk.tmp, bk.ty, c, &p2)
+		if len(p2) != 0 {
+			t.fail(ce, "storing back the result of the call needs an operation that can panic")
+		}
+	}
+	return text, res, resT, true
+}
+
+var gxApplyFuel bool
+
+// simple: a statement without control flow, as a prefix "let .. in\n" / "do .. <- ..;\n"
+func (t *gxTr) simple(st ast.Stmt, c *gxCtx) (string, bool) {
+	var pre []string
+	wrap := func(s string) string { return strings.Join(pre, "") + s }
+	switch x := st.(type) {
+	case *ast.DeclStmt:
+		gd, ok := x.Decl.(*ast.GenDecl)
+		if !ok || gd.Tok != token.VAR {
+			return "", false
+		}
+		text := ""
+		for _, sp := range gd.Specs {
+			vs := sp.(*ast.ValueSpec)
+			if vs.Type == nil || len(vs.Values) != 0 {
+				t.fail(st, "only `var x T` is understood")
+				return "", true
+			}
+			for _, n := range vs.Names {
+				ty := gxResolve(t.p, vs.Type, t.f.goName+"."+n.Name)
+				z, ok := ty.zero()
+				if ty.k == "bad" || !ok {
+					t.fail(st, "variable %s has a type that is not understood: %s", n.Name, t.src(vs.Type))
+					return "", true
+				}
+				t.declare(st, c, n.Name, ty)
+				text += "let v_" + n.Name + " := " + z + " in\n"
+			}
+		}
+		return text, true
+	case *ast.IncDecStmt:
+		a, ta := t.expr(x.X, *c, &pre)
+		if ta.k != "int" {
+			t.fail(st, "%s on a %s", x.Tok, ta.name())
+			return "", true
+		}
+		op := " + 1"
+		if x.Tok == token.DEC {
+			op = " - 1"
+		}
+		return wrap(t.store(x.X, "("+a+op+")", ta, c, &pre)), true
+	case *ast.ExprStmt:
+		ce, ok := x.X.(*ast.CallExpr)
+		if !ok {
+			return "", false
+		}
+		if text, _, _, ok := t.callStmt(ce, c); ok {
+			return text, true
+		}
+		t.fail(st, "statement not understood: %s", t.src(st))
+		return "", true
+	case *ast.AssignStmt:
+		if x.Tok != token.DEFINE && x.Tok != token.ASSIGN {
+			t.fail(st, "assignment operator %s", x.Tok)
+			return "", true
+		}
+		bind := func(text string, res []string, resT []*gxT) (string, bool) {
+			if len(res) != len(x.Lhs) {
+				t.fail(st, "%d values assigned to %d places", len(res), len(x.Lhs))
+				return "", true
+			}
+			for i, l := range x.Lhs {
+				if x.Tok == token.DEFINE {
+					id, ok := l.(*ast.Ident)
+					if !ok {
+						t.fail(st, ":= on something that is not a variable")
+						return "", true
+					}
+					if id.Name == "_" {
+						continue
+					}
+					t.declare(st, c, id.Name, resT[i])
+					text += "let v_" + id.Name + " := " + res[i] + " in\n"
+				} else {
+					var p2 []string
+					stx := t.store(l, res[i], resT[i], c, &p2)
+					text += strings.Join(p2, "") + stx
+				}
+			}
+			return text, true
+		}
+		if len(x.Rhs) == 1 {
+			if ce, ok := x.Rhs[0].(*ast.CallExpr); ok {
+				if text, res, resT, ok := t.callStmt(ce, c); ok {
+					return bind(text, res, resT)
+				}
+			}
+			if len(x.Lhs) == 2 {
+				switch r := x.Rhs[0].(type) {
+				case *ast.TypeAssertExpr: // v, ok := t.(T)
+					a, ta := t.expr(r.X, *c, &pre)
+					if ta.k == "any" && r.Type != nil {
+						fn, ty := "", gxBad
+						switch t.src(r.Type) {
+						case "int64":
+							fn, ty = "gx_assert_int64", gxI64
+						case "float64":
+							fn, ty = "gx_assert_float64", gxFloat
+						case "bool":
+							fn, ty = "gx_assert_bool", gxBool
+						case "string":
+							fn, ty = "gx_assert_string", gxStr
+						case "[]byte", "[]uint8":
+							fn, ty = "gx_assert_bytes", gxStr
+						}
+						if fn != "" {
+							t1, t2 := t.tmp(), t.tmp()
+							return bind(wrap("let '("+t1+", "+t2+") := "+fn+" "+a+" in\n"), []string{t1, t2}, []*gxT{ty, gxBool})
+						}
+					}
+					t.fail(st, "type assertion not understood: %s", t.src(r))
+					return "", true
+				case *ast.IndexExpr: // fn, ok := m[k]
+					a, ta := t.expr(r.X, *c, &pre)
+					k, tk := t.expr(r.Index, *c, &pre)
+					if ta.k == "map" && ta.elem.k == "cfnv" && tk.k == "str" {
+						t1 := t.tmp()
+						return bind(wrap("let "+t1+" := gx_map_lookup "+a+" "+k+" in\n"), []string{t1, "(negb (gx_opt_isnil " + t1 + "))"}, []*gxT{gxCfn, gxBool})
+					}
+					t.fail(st, "map lookup not understood: %s", t.src(r))
+					return "", true
+				}
+			}
+		}
+		if len(x.Rhs) != len(x.Lhs) || len(x.Lhs) != 1 {
+			t.fail(st, "assignment with %d left and %d right sides", len(x.Lhs), len(x.Rhs))
+			return "", true
+		}
+		a, ta := t.expr(x.Rhs[0], *c, &pre)
+		if x.Tok == token.DEFINE {
+			id, ok := x.Lhs[0].(*ast.Ident)
+			if !ok {
+				t.fail(st, ":= on something that is not a variable")
+				return "", true
+			}
+			if ta.k == "const" {
+				a, ta = t.coerce(x.Rhs[0], a, ta, gxInt)
+			}
+			t.declare(st, c, id.Name, ta)
+			return wrap("let v_" + id.Name + " := " + a + " in\n"), true
+		}
+		if ta.k == "const" || ta.k == "nil" {
+			var p2 []string
+			_, tl := t.expr(x.Lhs[0], *c, &p2)
+			a, ta = t.coerce(x.Rhs[0], a, ta, tl)
+		}
+		text := wrap(t.store(x.Lhs[0], a, ta, c, &pre))
+		// x = append(x, p) with a pointer p: p is shared from here on
+		if ce, ok := x.Rhs[0].(*ast.CallExpr); ok && t.src(ce.Fun) == "append" && len(ce.Args) == 2 {
+			if id, ok := ce.Args[1].(*ast.Ident); ok {
+				for i := range c.vars {
+					if c.vars[i].name == id.Name && c.vars[i].t.k == "struct" && c.vars[i].t.ptr {
+						vars := append([]gxVar{}, c.vars...)
+						vars[i].moved = true
+						c.vars = vars
+					}
+				}
+			}
+		}
+		return text, true
+	}
+	return "", false
+}
+
+func gxRestrict(inner, outer gxCtx) gxCtx {
+	r := outer
+	r.vars = inner.vars[:len(outer.vars)]
+	return r
+}
+
+// cond: a condition, possibly a call with side effects; answers the prefix and the boolean text
+func (t *gxTr) cond(e ast.Expr, c *gxCtx) (string, string) {
+	if ce, ok := e.(*ast.CallExpr); ok {
+		if text, res, resT, ok := t.callStmt(ce, c); ok {
+			if len(res) != 1 || resT[0].k != "bool" {
+				t.fail(e, "a call used as a condition must answer one bool")
+				return text, "false"
+			}
+			return text, res[0]
+		}
+	}
+	var pre []string
+	ct, tc := t.expr(e, *c, &pre)
+	if tc.k != "bool" {
+		t.fail(e, "a condition is expected")
+		return "", "false"
+	}
+	return strings.Join(pre, ""), ct
+}
+
+func (t *gxTr) stmts(list []ast.Stmt, c gxCtx, k func(gxCtx) string) string {
+	if len(list) == 0 {
+		return k(c)
+	}
+	st, rest := list[0], list[1:]
+	memo, have := "", false
+	next := func(c2 gxCtx) string {
+		if !have {
+			memo, have = t.stmts(rest, c2, k), true
+		}
+		return memo
+	}
+	switch x := st.(type) {
+	case *ast.ReturnStmt:
+		return t.ret(x, c)
+	case *ast.BranchStmt:
+		switch x.Tok {
+		case token.BREAK:
+			if x.Label != nil || c.brk == nil {
+				t.fail(st, "break is not understood here (with a label, inside a switch, or outside a loop)")
+				return "Panic"
+			}
+			return c.brk()
+		case token.CONTINUE:
+			if x.Label != nil && x.Label.Name != c.loopLabel {
+				if x.Label.Name == c.outerLabel && c.jump != nil {
+					return c.jump()
+				}
+				t.fail(st, "continue %s: only the loop itself or the labelled loop directly around it can be continued", x.Label.Name)
+				return "Panic"
+			}
+			if c.cont == nil {
+				t.fail(st, "continue outside a loop")
+				return "Panic"
+			}
+			return c.cont()
+		}
+		t.fail(st, "%s is not understood", x.Tok)
+		return "Panic"
+	case *ast.BlockStmt:
+		return t.stmts(x.List, c, func(c2 gxCtx) string { return next(gxRestrict(c2, c)) })
+	case *ast.IfStmt:
+		return t.ifStmt(x, c, next)
+	case *ast.SwitchStmt:
+		return t.switchStmt(x, c, next)
+	case *ast.TypeSwitchStmt:
+		return t.typeSwitch(x, c, next)
+	case *ast.ForStmt:
+		return t.forStmt(x, "", c, next)
+	case *ast.RangeStmt:
+		return t.rangeStmt(x, "", c, next)
+	case *ast.LabeledStmt:
+		switch l := x.Stmt.(type) {
+		case *ast.ForStmt:
+			return t.forStmt(l, x.Label.Name, c, next)
+		case *ast.RangeStmt:
+			return t.rangeStmt(l, x.Label.Name, c, next)
+		}
+		t.fail(st, "a label on something that is not a loop")
+		return "Panic"
+	}
+	if text, ok := t.simple(st, &c); ok {
+		return text + next(c)
+	}
+	t.fail(st, "statement not understood: %s", t.src(st))
+	return "Panic"
+}
+
+func (t *gxTr) ifStmt(x *ast.IfStmt, c gxCtx, next func(gxCtx) string) string {
+	c1 := c
+	initText := ""
+	if x.Init != nil {
+		txt, ok := t.simple(x.Init, &c1)
+		if !ok {
+			t.fail(x.Init, "if init statement not understood")
+		}
+		initText = txt
+	}
+	pre, ct := t.cond(x.Cond, &c1)
+	back := func(c2 gxCtx) string { return next(gxRestrict(c2, c)) }
+	thenT := t.stmts(x.Body.List, c1, back)
+	elseT := t.stmts(ggElse(x), c1, back)
+	return initText + pre + "if " + ct + " then\n" + gsIndent(thenT) + "\nelse\n" + gsIndent(elseT)
+}
+
+func (t *gxTr) switchStmt(x *ast.SwitchStmt, c gxCtx, next func(gxCtx) string) string {
+	if x.Init != nil || x.Tag == nil {
+		t.fail(x, "only `switch tag { .. }` is understood")
+		return "Panic"
+	}
+	var pre []string
+	tag, tt := t.expr(x.Tag, c, &pre)
+	if tt.k != "kind" && !tt.isNum() {
+		t.fail(x.Tag, "switch on a %s", tt.name())
+		return "Panic"
+	}
+	c1 := c
+	c1.brk = nil
+	back := func(c2 gxCtx) string { return next(gxRestrict(c2, c)) }
+	var deflt *ast.CaseClause
+	var cases []*ast.CaseClause
+	for i, s := range x.Body.List {
+		cc := s.(*ast.CaseClause)
+		if cc.List == nil {
+			deflt = cc
+			if i != len(x.Body.List)-1 {
+				t.fail(cc, "default is not the last case")
+			}
+		} else {
+			cases = append(cases, cc)
+		}
+		for _, b := range cc.Body {
+			if bs, ok := b.(*ast.BranchStmt); ok && bs.Tok == token.FALLTHROUGH {
+				t.fail(b, "fallthrough")
+			}
+		}
+	}
+	var chain func(i int) string
+	chain = func(i int) string {
+		if i == len(cases) {
+			if deflt != nil {
+				return t.stmts(deflt.Body, c1, back)
+			}
+			return back(c1)
+		}
+		var conds []string
+		for _, e := range cases[i].List {
+			var p2 []string
+			v, tv := t.expr(e, c, &p2)
+			v, tv = t.coerce(e, v, tv, tt)
+			if len(p2) != 0 || !tv.same(tt) {
+				t.fail(e, "case expression not understood")
+				continue
+			}
+			if tt.k == "kind" {
+				conds = append(conds, "(gx_Kind_eqb "+tag+" "+v+")")
+			} else {
+				conds = append(conds, "("+tag+" =? "+v+")")
+			}
+		}
+		ct := strings.Join(conds, " || ")
+		if len(conds) == 0 {
+			ct = "false"
+		}
+		body := t.stmts(cases[i].Body, c1, back)
+		return "if " + ct + " then\n" + gsIndent(body) + "\nelse\n" + gsIndent(chain(i+1))
+	}
+	return strings.Join(pre, "") + chain(0)
+}
+
+// switch v := t.(type) on a driver value: a match on the constructor
+func (t *gxTr) typeSwitch(x *ast.TypeSwitchStmt, c gxCtx, next func(gxCtx) string) string {
+	if x.Init != nil {
+		t.fail(x, "type switch with an init statement")
+		return "Panic"
+	}
+	bound := ""
+	var ta *ast.TypeAssertExpr
+	switch a := x.Assign.(type) {
+	case *ast.AssignStmt:
+		if len(a.Lhs) == 1 && len(a.Rhs) == 1 && a.Tok == token.DEFINE {
+			bound = a.Lhs[0].(*ast.Ident).Name
+			ta, _ = a.Rhs[0].(*ast.TypeAssertExpr)
+		}
+	case *ast.ExprStmt:
+		ta, _ = a.X.(*ast.TypeAssertExpr)
+	}
+	if ta == nil || ta.Type != nil {
+		t.fail(x, "type switch not understood")
+		return "Panic"
+	}
+	var pre []string
+	scrut, ts := t.expr(ta.X, c, &pre)
+	if ts.k != "any" {
+		t.fail(x, "type switch on a %s", ts.name())
+		return "Panic"
+	}
+	type arm struct {
+		con string
+		ty  *gxT
+	}
+	arms := []arm{{"DInt", gxI64}, {"DFloat", gxFloat}, {"DBool", gxBool}, {"DStr", gxStr}, {"DBytes", gxStr}, {"DNull", nil}, {"DOther", nil}}
+	byType := map[string]int{"int64": 0, "float64": 1, "bool": 2, "string": 3, "[]byte": 4, "[]uint8": 4, "nil": 5}
+	bodies := make([]*ast.CaseClause, len(arms))
+	var deflt *ast.CaseClause
+	c1 := c
+	c1.brk = nil
+	for _, s := range x.Body.List {
+		cc := s.(*ast.CaseClause)
+		for _, b := range cc.Body {
+			if bs, ok := b.(*ast.BranchStmt); ok && bs.Tok == token.FALLTHROUGH {
+				t.fail(b, "fallthrough")
+			}
+		}
+		if cc.List == nil {
+			deflt = cc
+			continue
+		}
+		if len(cc.List) != 1 {
+			t.fail(cc, "a case of a type switch with several types")
+			continue
+		}
+		i, ok := byType[t.src(cc.List[0])]
+		if !ok {
+			t.fail(cc, "a case of a type switch on a type that is not a driver value: %s", t.src(cc.List[0]))
+			continue
+		}
+		if bodies[i] != nil {
+			t.fail(cc, "duplicate case")
+		}
+		bodies[i] = cc
+	}
+	back := func(c2 gxCtx) string { return next(gxRestrict(c2, c)) }
+	var b strings.Builder
+	b.WriteString(strings.Join(pre, "") + "match " + scrut + " with\n")
+	for i, a := range arms {
+		cc := bodies[i]
+		pat := a.con
+		ci := c1
+		if a.ty != nil {
+			if cc != nil && bound != "" {
+				pat += " v_" + bound
+				t.declare(cc, &ci, bound, a.ty)
+				ci.vars[len(ci.vars)-1].local = true
+			} else {
+				pat += " _"
+			}
+		}
+		var body string
+		switch {
+		case cc != nil:
+			body = t.stmts(cc.Body, ci, back)
+		case deflt != nil:
+			body = t.stmts(deflt.Body, c1, back)
+		default:
+			body = back(c1)
+		}
+		b.WriteString("| " + pat + " =>\n" + gsIndent(gsIndent(body)) + "\n")
+	}
+	b.WriteString("end")
+	return b.String()
+}
+
+func (t *gxTr) outsTuple(res []string) string {
+	parts := append([]string{}, res...)
+	for _, o := range t.f.outs {
+		parts = append(parts, "v_"+o.name)
+	}
+	return gxTupleOrUnit(parts)
+}
+
+func (t *gxTr) resultType() string {
+	var tys []string
+	for _, r := range t.f.results {
+		tys = append(tys, r.coq())
+	}
+	for _, o := range t.f.outs {
+		tys = append(tys, o.t.coq())
+	}
+	return gxTypeTupleOrUnit(tys)
+}
+
+func (t *gxTr) ret(x *ast.ReturnStmt, c gxCtx) string {
+	if len(x.Results) == 1 {
+		if ce, ok := x.Results[0].(*ast.CallExpr); ok {
+			if text, res, resT, ok := t.callStmt(ce, &c); ok {
+				if len(res) != len(t.f.results) {
+					t.fail(x, "return of a call with %d values, the function has %d results", len(res), len(t.f.results))
+					return "Panic"
+				}
+				for i := range res {
+					if !resT[i].same(t.f.results[i]) {
+						t.fail(x, "result %d: a %s where a %s is expected", i, resT[i].name(), t.f.results[i].name())
+					}
+				}
+				return text + c.retv(t.outsTuple(res))
+			}
+		}
+	}
+	var pre []string
+	var res []string
+	if len(x.Results) != len(t.f.results) {
+		t.fail(x, "return with %d values, the function has %d results", len(x.Results), len(t.f.results))
+		return "Panic"
+	}
+	for i, r := range x.Results {
+		a, ta := t.expr(r, c, &pre)
+		a, ta = t.coerce(r, a, ta, t.f.results[i])
+		if !ta.same(t.f.results[i]) {
+			t.fail(r, "result %d: a %s where a %s is expected", i, ta.name(), t.f.results[i].name())
+		}
+		t.noAlias(r, ta)
+		res = append(res, a)
+	}
+	return strings.Join(pre, "") + c.retv(t.outsTuple(res))
+}
+
+// ------------------------------------------------------------------ loops
+
+// assigned: the variables of c (in order) that the nodes may change (an over-approximation).
+func (t *gxTr) assigned(c gxCtx, nodes ...ast.Node) []gxVar {
+	names := map[string]bool{}
+	mark := func(e ast.Expr) {
+		if r := gxRootOf(e); r != "" {
+			names[r] = true
+		}
+	}
+	markPtr := func(e ast.Expr) {
+		if r := gxRootOf(e); r != "" {
+			if v, ok := c.lookup(r); ok && (v.t.ptr || v.t.k == "list" && v.t.elem.ptr) {
+				names[r] = true
+			}
+		}
+	}
+	for _, n := range nodes {
+		if n == nil {
+			continue
+		}
+		ast.Inspect(n, func(m ast.Node) bool {
+			switch x := m.(type) {
+			case *ast.AssignStmt:
+				if x.Tok != token.DEFINE {
+					for _, l := range x.Lhs {
+						mark(l)
+					}
+				}
+			case *ast.IncDecStmt:
+				mark(x.X)
+			case *ast.CallExpr:
+				if se, ok := x.Fun.(*ast.SelectorExpr); ok {
+					markPtr(se.X)
+				}
+				for _, a := range x.Args {
+					markPtr(a)
+				}
+			}
+			return true
+		})
+	}
+	var out []gxVar
+	for _, v := range c.vars {
+		if names[v.name] {
+			out = append(out, v)
+		}
+	}
+	return out
+}
+
+// does the body contain a return / a continue of a label other than its own?
+func gxLoopShape(body *ast.BlockStmt, own string) (hasRet, jumps bool) {
+	inner := map[string]bool{own: true}
+	ast.Inspect(body, func(m ast.Node) bool {
+		if ls, ok := m.(*ast.LabeledStmt); ok {
+			inner[ls.Label.Name] = true
+		}
+		return true
+	})
+	ast.Inspect(body, func(m ast.Node) bool {
+		switch x := m.(type) {
+		case *ast.ReturnStmt:
+			hasRet = true
+		case *ast.BranchStmt:
+			if x.Tok == token.CONTINUE && x.Label != nil && !inner[x.Label.Name] {
+				jumps = true
+			}
+		case *ast.FuncLit:
+			return false
+		}
+		return true
+	})
+	return
+}
+
+type gxLoop struct {
+	t       *gxTr
+	c       gxCtx // the context around the loop
+	res     []gxVar
+	hasRet  bool
+	jumps   bool
+	recMark string
+	vtuple  string
+	vtype   string
+	resType string
+	exit    string
+	bodyCtx gxCtx
+}
+
+// newLoop prepares the translation of a loop whose body (and condition / post) are nodes
+func (t *gxTr) newLoop(c gxCtx, label string, body *ast.BlockStmt, nodes ...ast.Node) *gxLoop {
+	l := &gxLoop{t: t, c: c}
+	l.res = t.assigned(c, nodes...)
+	l.hasRet, l.jumps = gxLoopShape(body, label)
+	t.nrec++
+	l.recMark = fmt.Sprintf("@REC%d@", t.nrec)
+	l.vtuple = gxTupleOrUnit(gxVarNames(l.res))
+	l.vtype = gxTypeTupleOrUnit(gxVarTypes(l.res))
+	cb := c
+	cb.loopLabel = label
+	cb.outerLabel = c.loopLabel
+	cb.cont = func() string { return l.recMark }
+	cb.jump = nil
+	switch {
+	case l.jumps:
+		cb.retv = func(tp string) string { return "Ok (gx_cret " + tp + ")" }
+		cb.jump = func() string { return "Ok (gx_ccont " + l.vtuple + ")" }
+		l.exit = "Ok (gx_cfall " + l.vtuple + ")"
+		l.resType = "(gx_flowc " + t.resultType() + " " + l.vtype + ")"
+		if c.loopLabel == "" || c.cont == nil {
+			t.fail(body, "a labelled continue that leaves a loop which is not directly inside the labelled loop")
+		}
+	case l.hasRet:
+		cb.retv = func(tp string) string { return "Ok (gx_ret " + tp + ")" }
+		l.exit = "Ok (gx_fall " + l.vtuple + ")"
+		l.resType = "(gx_flow " + t.resultType() + " " + l.vtype + ")"
+	default:
+		l.exit = "Ok " + l.vtuple
+		l.resType = l.vtype
+	}
+	cb.brk = func() string { return l.exit }
+	l.bodyCtx = cb
+	return l
+}
+
+// finish emits the Fixpoint and answers the text of the call site followed by the rest
+func (l *gxLoop) finish(cIn gxCtx, head, structArg, matchHead, body string, firstArgs []string, recFirst []string, extra []gxVar, next func(gxCtx) string) string {
+	t := l.t
+	var ps []gxVar
+	for _, v := range cIn.vars {
+		if gsMentions(body, "v_"+v.name) {
+			ps = append(ps, v)
+		}
+	}
+	for _, r := range l.res {
+		found := false
+		for _, v := range ps {
+			if v.name == r.name {
+				found = true
+			}
+		}
+		if !found {
+			ps = append(ps, r)
+		}
+	}
+	// variables introduced by the loop head itself (range index) are passed explicitly
+	var ps2 []gxVar
+	for _, v := range ps {
+		skip := false
+		for _, e := range extra {
+			if e.name == v.name {
+				skip = true
+			}
+		}
+		if !skip {
+			ps2 = append(ps2, v)
+		}
+	}
+	ps = ps2
+	name := fmt.Sprintf("%s_loop%d", t.f.coq, len(t.loops)+1)
+	var sig, recArgs, callArgs []string
+	if gsMentions(body, "fuel'") {
+		sig = append(sig, "(fuel' : nat)")
+		recArgs = append(recArgs, "fuel'")
+		callArgs = append(callArgs, "fuel'")
+	}
+	sig = append(sig, head)
+	recArgs = append(recArgs, recFirst...)
+	callArgs = append(callArgs, firstArgs...)
+	for _, v := range ps {
+		sig = append(sig, "(v_"+v.name+" : "+v.t.coq()+")")
+		recArgs = append(recArgs, "v_"+v.name)
+		callArgs = append(callArgs, "v_"+v.name)
+	}
+	body = strings.ReplaceAll(body, l.recMark, name+" "+strings.Join(recArgs, " "))
+	def := "Fixpoint " + name + " " + strings.Join(sig, " ") + " {struct " + structArg + "} : outcome " + l.resType + " :=\n" +
+		"  " + matchHead + "\n" + gsIndent(gsIndent(body)) + "\n  end.\n"
+	t.loops = append(t.loops, def)
+	call := name + " " + strings.Join(callArgs, " ")
+	c := l.c
+	switch {
+	case l.jumps:
+		tmp, r := t.tmp(), t.tmp()
+		contT := "Panic"
+		if c.cont != nil {
+			contT = c.cont()
+		}
+		return "do " + tmp + " <- " + call + ";\nmatch " + tmp + " with\n| gx_cfall " + l.vtuple + " =>\n" + gsIndent(next(c)) +
+			"\n| gx_cret " + r + " => " + c.retv(r) + "\n| gx_ccont " + l.vtuple + " =>\n" + gsIndent(contT) + "\nend"
+	case l.hasRet:
+		tmp, r := t.tmp(), t.tmp()
+		return "do " + tmp + " <- " + call + ";\nmatch " + tmp + " with\n| gx_fall " + l.vtuple + " =>\n" + gsIndent(next(c)) +
+			"\n| gx_ret " + r + " => " + c.retv(r) + "\nend"
+	}
+	return "do " + l.vtuple + " <- " + call + ";\n" + next(c)
+}
+
+func (t *gxTr) forStmt(x *ast.ForStmt, label string, c gxCtx, next func(gxCtx) string) string {
+	c1 := c
+	initText := ""
+	if x.Init != nil {
+		txt, ok := t.simple(x.Init, &c1)
+		if !ok {
+			t.fail(x.Init, "loop init statement not understood")
+		}
+		initText = txt
+	}
+	if x.Cond == nil {
+		t.fail(x, "a for loop without condition")
+		return "Panic"
+	}
+	var nodes []ast.Node
+	nodes = append(nodes, x.Body, x.Cond)
+	if x.Post != nil {
+		nodes = append(nodes, x.Post)
+	}
+	l := t.newLoop(c1, label, x.Body, nodes...)
+	// the loop answers only the variables of the context around it
+	outer := t.assigned(c, nodes...)
+	l.vtuple = gxTupleOrUnit(gxVarNames(outer))
+	l.vtype = gxTypeTupleOrUnit(gxVarTypes(outer))
+	l2 := t.newLoopTypes(l, outer)
+	_ = l2
+	cb := l.bodyCtx
+	post := func(c2 gxCtx) string {
+		if x.Post == nil {
+			return l.recMark
+		}
+		cp := gxRestrict(c2, c1)
+		txt, ok := t.simple(x.Post, &cp)
+		if !ok {
+			t.fail(x.Post, "loop post statement not understood")
+		}
+		return txt + l.recMark
+	}
+	cb.cont = func() string { return post(cb) }
+	cc := cb
+	pre, ct := t.cond(x.Cond, &cc)
+	iter := t.stmts(x.Body.List, cc, post)
+	body := "| O => Panic\n| S k' =>\n" + gsIndent(pre+"if "+ct+" then\n"+gsIndent(iter)+"\nelse\n"+gsIndent(l.exit))
+	l.c = c
+	rest := l.finish(c1, "(k : nat)", "k", "match k with", body, []string{"fuel'"}, []string{"k'"}, nil, next)
+	return initText + rest
+}
+
+// newLoopTypes recomputes the exit / result texts of l for the answered variables vs
+func (t *gxTr) newLoopTypes(l *gxLoop, vs []gxVar) *gxLoop {
+	l.res = vs
+	switch {
+	case l.jumps:
+		l.exit = "Ok (gx_cfall " + l.vtuple + ")"
+		l.resType = "(gx_flowc " + t.resultType() + " " + l.vtype + ")"
+	case l.hasRet:
+		l.exit = "Ok (gx_fall " + l.vtuple + ")"
+		l.resType = "(gx_flow " + t.resultType() + " " + l.vtype + ")"
+	default:
+		l.exit = "Ok " + l.vtuple
+		l.resType = l.vtype
+	}
+	return l
+}
+
+func (t *gxTr) rangeStmt(x *ast.RangeStmt, label string, c gxCtx, next func(gxCtx) string) string {
+	if x.Tok != token.DEFINE && (x.Key != nil || x.Value != nil) {
+		t.fail(x, "range with = instead of :=")
+		return "Panic"
+	}
+	var pre []string
+	over, to := t.expr(x.X, c, &pre)
+	var elemT *gxT
+	list := over
+	isMap := false
+	switch to.k {
+	case "list":
+		elemT = to.elem
+	case "map":
+		elemT, isMap = gxStr, true
+		list = "(gx_map_keys " + over + ")"
+	default:
+		t.fail(x, "range over a %s", to.name())
+		return "Panic"
+	}
+	c1 := c
+	keyName, valName := "", ""
+	if id, ok := x.Key.(*ast.Ident); ok && id.Name != "_" {
+		keyName = id.Name
+	}
+	if x.Value != nil {
+		if id, ok := x.Value.(*ast.Ident); ok && id.Name != "_" {
+			valName = id.Name
+		}
+	}
+	if isMap {
+		if valName != "" {
+			t.fail(x, "range over a map with a value variable")
+		}
+		valName, keyName = keyName, ""
+	}
+	var extra []gxVar
+	if keyName != "" {
+		t.declare(x, &c1, keyName, gxInt)
+		c1.vars[len(c1.vars)-1].local = true
+		extra = append(extra, c1.vars[len(c1.vars)-1])
+	}
+	if valName != "" {
+		t.declare(x, &c1, valName, elemT)
+		c1.vars[len(c1.vars)-1].local = true
+		extra = append(extra, c1.vars[len(c1.vars)-1])
+	}
+	l := t.newLoop(c1, label, x.Body, x.Body)
+	outer := t.assigned(c, x.Body)
+	l.vtuple = gxTupleOrUnit(gxVarNames(outer))
+	l.vtype = gxTypeTupleOrUnit(gxVarTypes(outer))
+	t.newLoopTypes(l, outer)
+	cb := l.bodyCtx
+	iter := t.stmts(x.Body.List, cb, func(gxCtx) string { return l.recMark })
+	pat := "_"
+	if valName != "" {
+		pat = "v_" + valName
+	}
+	body := "| [] => " + l.exit + "\n| " + pat + " :: l' =>\n" + gsIndent(iter)
+	head := "(l : list " + elemT.coq() + ")"
+	first, rec := []string{list}, []string{"l'"}
+	if keyName != "" {
+		head += " (v_" + keyName + " : Z)"
+		first = append(first, "0")
+		rec = append(rec, "(v_"+keyName+" + 1)")
+	}
+	l.c = c
+	return strings.Join(pre, "") + l.finish(c1, head, "l", "match l with", body, first, rec, extra, next)
+}
+
+// ------------------------------------------------------------------ functions
+
+// is fd of the shape  func F(c *Column) func(t interface{}) error { return func(t interface{}) error { .. } } ?
+func gxIsMaker(p *pkgInfo, fd *ast.FuncDecl) (*ast.FuncLit, bool) {
+	if fd.Recv != nil || fd.Body == nil || fd.Type.Results == nil || len(fd.Type.Results.List) != 1 || len(fd.Type.Params.List) != 1 {
+		return nil, false
+	}
+	if len(fd.Type.Params.List[0].Names) != 1 || ggSrc(p.fset, fd.Type.Params.List[0].Type) != "*Column" {
+		return nil, false
+	}
+	if ggSrc(p.fset, fd.Type.Results.List[0].Type) != "func(t interface{}) error" {
+		return nil, false
+	}
+	if len(fd.Body.List) != 1 {
+		return nil, true
+	}
+	rs, ok := fd.Body.List[0].(*ast.ReturnStmt)
+	if !ok || len(rs.Results) != 1 {
+		return nil, true
+	}
+	fl, ok := rs.Results[0].(*ast.FuncLit)
+	if !ok {
+		return nil, true
+	}
+	return fl, true
+}
+
+// does the body change the pointee of the struct pointer variable name?
+func gxMutates(body *ast.BlockStmt, name string, ty *gxT) bool {
+	mut := false
+	ast.Inspect(body, func(m ast.Node) bool {
+		switch x := m.(type) {
+		case *ast.AssignStmt:
+			if x.Tok != token.DEFINE {
+				for _, l := range x.Lhs {
+					if gxRootOf(l) == name {
+						mut = true
+					}
+				}
+			}
+		case *ast.IncDecStmt:
+			if gxRootOf(x.X) == name {
+				mut = true
+			}
+		case *ast.CallExpr:
+			if se, ok := x.Fun.(*ast.SelectorExpr); ok && gxRootOf(se.X) == name {
+				if id, ok := se.X.(*ast.Ident); ok && id.Name == name {
+					if g, ok := gxFuncs[ty.sname+"."+se.Sel.Name]; ok {
+						for _, o := range g.outs {
+							if o.name == g.recv {
+								mut = true
+							}
+						}
+					} else {
+						mut = true // a closure stored in it, or something not understood
+					}
+				} else {
+					mut = true
+				}
+			}
+			for _, a := range x.Args {
+				if id, ok := a.(*ast.Ident); ok && id.Name == name {
+					mut = true
+				}
+				if u, ok := a.(*ast.UnaryExpr); ok && u.Op == token.AND && gxRootOf(u.X) == name {
+					mut = true
+				}
+			}
+		}
+		return true
+	})
+	return mut
+}
+
+func gxSignature(p *pkgInfo, f *gxFunc) bool {
+	fd := f.fd
+	bad := func(format string, a ...interface{}) bool {
+		problem("internal/io/sql translation, function %s: %s", f.goName, fmt.Sprintf(format, a...))
+		return false
+	}
+	ftype := fd.Type
+	f.body = fd.Body
+	if fl, isMaker := gxIsMaker(p, fd); isMaker {
+		if fl == nil {
+			return bad("a function of the CoerceFunc shape whose body is not one return of a function literal")
+		}
+		f.maker = true
+		f.body = fl.Body
+		n := fd.Type.Params.List[0].Names[0].Name
+		f.params = append(f.params, gxVar{name: n, t: &gxT{k: "struct", sname: "Column", ptr: true}})
+		f.outs = append(f.outs, f.params[0])
+		ftype = fl.Type
+	} else if fd.Recv != nil {
+		if len(fd.Recv.List) != 1 || len(fd.Recv.List[0].Names) != 1 {
+			return bad("receiver not understood")
+		}
+		rt := gxResolve(p, fd.Recv.List[0].Type, "")
+		if rt.k != "struct" || !rt.ptr {
+			return bad("receiver type not understood (a pointer to a translated struct is expected)")
+		}
+		f.recv = fd.Recv.List[0].Names[0].Name
+		f.recvT = rt
+	}
+	for _, fl := range ftype.Params.List {
+		if len(fl.Names) == 0 {
+			return bad("an argument without name")
+		}
+		for _, n := range fl.Names {
+			ty := gxResolve(p, fl.Type, f.goName+"."+n.Name)
+			if ty.k == "bad" {
+				return bad("argument %s has a type that is not understood: %s", n.Name, ggSrc(p.fset, fl.Type))
+			}
+			f.params = append(f.params, gxVar{name: n.Name, t: ty})
+			if ty.k == "buf" || ty.k == "struct" && ty.ptr && gxMutates(f.body, n.Name, ty) {
+				f.outs = append(f.outs, gxVar{name: n.Name, t: ty})
+			}
+		}
+	}
+	if f.recv != "" && gxMutates(f.body, f.recv, f.recvT) {
+		f.outs = append(f.outs, gxVar{name: f.recv, t: f.recvT})
+	}
+	if ftype.Results != nil {
+		i := 0
+		for _, fl := range ftype.Results.List {
+			if len(fl.Names) > 0 {
+				return bad("named results")
+			}
+			ty := gxResolve(p, fl.Type, fmt.Sprintf("%s.result%d", f.goName, i))
+			if ty.k == "bad" || ty.k == "rows" || ty.k == "buf" || ty.k == "struct" {
+				return bad("result type not understood: %s", ggSrc(p.fset, fl.Type))
+			}
+			f.results = append(f.results, ty)
+			i++
+		}
+	}
+	if f.maker {
+		if len(f.params) != 2 || f.params[1].t.k != "any" || len(f.results) != 1 || f.results[0].k != "err" {
+			return bad("closure signature not understood")
+		}
+	}
+	return true
+}
+
+func gxTranslate(p *pkgInfo, f *gxFunc) {
+	t := &gxTr{p: p, f: f}
+	c := gxCtx{retv: func(tp string) string { return "Ok " + tp }}
+	if f.recv != "" {
+		c.vars = append(c.vars, gxVar{name: f.recv, t: f.recvT})
+	}
+	c.vars = append(c.vars, f.params...)
+	for _, v := range c.vars {
+		if _, isFn := gxFuncs[v.name]; isFn {
+			t.fail(f.fd, "argument %s shadows a function", v.name)
+		}
+	}
+	body := t.stmts(f.body.List, c, func(c2 gxCtx) string {
+		if len(f.results) != 0 {
+			t.fail(f.fd, "the function can fall off its end")
+		}
+		return "Ok " + t.outsTuple(nil)
+	})
+	var sig []string
+	f.needsFuel = gsMentions(body, "fuel'")
+	for _, l := range t.loops {
+		if gsMentions(l, "fuel'") {
+			f.needsFuel = true
+		}
+	}
+	if f.needsFuel {
+		sig = append(sig, "(fuel : nat)")
+	}
+	for _, v := range c.vars {
+		sig = append(sig, "(v_"+v.name+" : "+v.t.coq()+")")
+	}
+	var b strings.Builder
+	fmt.Fprintf(&b, "(* %s\n%s *)\n", gxPkg, gsSource(p, f.fd))
+	for _, l := range t.loops {
+		b.WriteString(l)
+	}
+	if f.needsFuel {
+		fmt.Fprintf(&b, "Definition %s %s : outcome %s :=\n  match fuel with\n  | O => Panic\n  | S fuel' =>\n%s\n  end.\n",
+			f.coq, strings.Join(sig, " "), t.resultType(), gsIndent(gsIndent(body)))
+	} else {
+		fmt.Fprintf(&b, "Definition %s %s : outcome %s :=\n%s.\n", f.coq, strings.Join(sig, " "), t.resultType(), gsIndent(body))
+	}
+	f.text = b.String()
+	f.ok = !t.bad
+}
+
+func genSqlIO() string {
+	p := loadPkg(gxPkg)
+	gxFuncs = map[string]*gxFunc{}
+	gxApplyFuel = false
+	// the functions of the CoerceFunc shape: the constructors of gx_CoerceFunc (sorted by name)
+	gxMakers = nil
+	for _, fname := range []string{"coerce.go", "column.go", "reader.go", "stmt.go", "types.go"} {
+		if _, ok := p.files[fname]; !ok {
+			problem("internal/io/sql translation: file %s not found", fname)
+		}
+	}
+	var allNames []string
+	for n := range p.funcs {
+		allNames = append(allNames, n)
+	}
+	sortStrings(allNames)
+	for _, n := range allNames {
+		if _, isMaker := gxIsMaker(p, p.funcs[n]); isMaker {
+			gxMakers = append(gxMakers, n)
+			inSpecs := false
+			for _, s := range gxSpecs {
+				if s == n {
+					inSpecs = true
+				}
+			}
+			if !inSpecs {
+				problem("internal/io/sql translation: %s has the shape of a CoerceFunc but is not among the translated functions (gxSpecs)", n)
+			}
+		}
+	}
+	gxLoadStructs(p)
+	var order []*gxFunc
+	for _, n := range gxSpecs {
+		f := &gxFunc{goName: n, coq: "gx_" + strings.ReplaceAll(n, ".", "_")}
+		gxFuncs[n] = f
+		order = append(order, f)
+	}
+	structsOK := true
+	for _, s := range gxStructOrder {
+		if !gxStructTab[s].ok {
+			structsOK = false
+		}
+	}
+	for _, s := range gxStructs {
+		if gxStructTab[s] == nil || !gxStructTab[s].ok {
+			structsOK = false
+		}
+	}
+	golden := ""
+	if fl := flag.Lookup("golden"); fl != nil && fl.Value.String() != "" {
+		if gb, err := os.ReadFile(filepath.Join(fl.Value.String(), "GenSqlIO.v")); err == nil {
+			golden = string(gb)
+		}
+	}
+	block := func(b *strings.Builder, name, text string, ok bool) {
+		if !ok {
+			old, found := gfGoldenBlock(golden, name)
+			if !found {
+				return
+			}
+			text = "(* FALLBACK " + name + ": not derivable from the current source; text of the last validated tree *)\n" + old
+		}
+		fmt.Fprintf(b, "(* BEGIN %s *)\n%s(* END %s *)\n\n", name, text, name)
+	}
+	var b strings.Builder
+	b.WriteString(gxPreamble1)
+	// gx_CoerceFunc
+	{
+		text := "(* the functions of the shape func F(c *Column) func(t interface{}) error *)\nInductive gx_CoerceFunc :="
+		for i, m := range gxMakers {
+			if i > 0 {
+				text += " |"
+			}
+			text += " gx_fn_" + m
+		}
+		text += ".\n"
+		if len(gxMakers) == 0 {
+			problem("internal/io/sql translation: no function of the CoerceFunc shape found")
+		}
+		block(&b, "gx_CoerceFunc", text, len(gxMakers) > 0)
+	}
+	// records; gx_ref / gx_DataSlice go in front of Column, gx_ref_elem behind it
+	for _, sn := range gxStructs {
+		s := gxStructTab[sn]
+		ok := s != nil && s.ok
+		text := ""
+		if ok {
+			text = "(* " + gxPkg + "\n" + ggStructSource(p, sn) + " *)\n"
+			for _, nn := range s.nested {
+				text += gxStructTab[nn].record()
+			}
+			if sn == "Column" {
+				text += gxRefText()
+			}
+			text += s.record()
+			if sn == "Column" {
+				text += gxRefElemText()
+			}
+		}
+		block(&b, "gx_"+sn, text, ok)
+	}
+	b.WriteString(gxPreamble2)
+	for _, f := range order {
+		fd, ok := p.funcs[f.goName]
+		if !ok || fd.Body == nil {
+			problem("internal/io/sql translation: function %s not found in %s", f.goName, gxPkg)
+			f.done = true
+			block(&b, f.coq, "", false)
+			continue
+		}
+		f.fd = fd
+		if structsOK && gxSignature(p, f) {
+			gxTranslate(p, f)
+		}
+		f.done = true
+		block(&b, f.coq, f.text, f.ok)
+		// after the last closure: the dispatcher; after Column.Scan: database/sql's Rows.Scan
+		if f.maker {
+			last := true
+			seen := false
+			for _, g := range order {
+				if g == f {
+					seen = true
+					continue
+				}
+				if seen {
+					if _, isMaker := gxIsMaker(p, p.funcs[g.goName]); p.funcs[g.goName] != nil && isMaker {
+						last = false
+					}
+				}
+			}
+			if last {
+				allOK := true
+				for _, m := range gxMakers {
+					if g := gxFuncs[m]; g == nil || !g.ok {
+						allOK = false
+					} else if g.needsFuel {
+						gxApplyFuel = true
+					}
+				}
+				text := "(* c.coerce(t): the closure made by f for the column c, applied to t *)\nDefinition gx_apply_CoerceFunc "
+				if gxApplyFuel {
+					text += "(fuel' : nat) "
+				}
+				text += "(f : gx_CoerceFunc) (c : gx_Column) (t : dval) : outcome (gx_error * gx_Column) :=\n  match f with\n"
+				for _, m := range gxMakers {
+					fa := ""
+					if g := gxFuncs[m]; g != nil && g.needsFuel {
+						fa = " fuel'"
+					}
+					text += "  | gx_fn_" + m + " => gx_" + m + fa + " c t\n"
+				}
+				text += "  end.\n"
+				block(&b, "gx_apply_CoerceFunc", text, allOK)
+			}
+		}
+		if f.goName == "Column.Scan" {
+			text := gxRowsScan
+			if !f.needsFuel {
+				text = strings.ReplaceAll(text, "(fuel' : nat) ", "")
+				text = strings.ReplaceAll(text, " fuel'", "")
+			}
+			block(&b, "gx_Rows_Scan", text, f.ok)
+		}
+	}
+	b.WriteString("End GenSqlIO.\n")
+	return b.String()
+}
+
+func sortStrings(s []string) {
+	for i := 1; i < len(s); i++ {
+		for j := i; j > 0 && s[j] < s[j-1]; j-- {
+			s[j], s[j-1] = s[j-1], s[j]
+		}
+	}
+}
